@@ -1,366 +1,1428 @@
-"""C09 K-medoids refinement: accept test, atomic commit, proposals, seed flow."""
+"""C09 K-medoids refinement: accept test, atomic commit, proposals, seed flow.
+
+The constructs are located by ROLE, not by the local names of the pinned tree:
+
+* the four state variables of the PAM update are the elements of the returned
+  tuple (indices, distances, labels, coordinates); the first three are the
+  rebound parameters 3, 5 and 4;
+* the commit is "the subscript store into the returned index container inside
+  a for loop"; that loop is the per-centre loop and its target the centre id;
+* the accept condition is the conjunction of the branch conditions (CFG Assume
+  nodes) of that loop which dominate the commit: if/else in either order and
+  the guard-clause form (`if not better: continue`) look the same;
+* the candidate distances are "the per-trip array whose cost is compared with
+  the cost of the current distances"; the candidate labels / coordinates are
+  what the accept region binds to the label / coordinate state variable;
+* contents are compared after expansion of temporaries against a list of
+  accepted forms (match.classify): an unfamiliar shape is ANALYSIS-INCOMPLETE,
+  a different function of the same operands in a located role is a VIOLATION.
+"""
 import ast
 
 from ..cfg import ENTRY, EXIT, Assume, header_uses, stmt_defs
-from ..core import (AnalysisIncomplete, call_name, kwarg, names_loaded,
-                    params, target_names, u, walk_expr, walk_local, dotted)
+from ..core import (AnalysisIncomplete, call_name, const_value, kwarg,
+                    names_loaded, param_default, params, u, walk_expr,
+                    walk_local)
+from ..match import canon, classify, match
 from ..patterns import (Cmp, assigns_to, calls_in, conjuncts, finfo,
-                        returns_of, subscript_stores, shared)
+                        returns_of, subscript_stores)
 from .cluster_common import KC, KM, HY, CU
+
+OPS = 'enspara/mpi/ops.py'
+PAM = '_kmedoids_pam_update'
+PROPOSER = '_propose_new_center_amongst'
+SWEEPS = '_kmedoids_iterations'
+INPUTS = '_kmedoids_inputs_tree'
 
 EXPLANATION = (
     'Static decision of the structural necessary conditions of C09: (D1) the '
-    'commit branch of the PAM update is guarded by cost(candidate) < '
-    'cost(current) with both costs from the same callable and operand '
-    'provenance checked; (D2) inside the per-centre loop the four state '
-    'variables are written only in the accept branch and all four there, and '
-    'the candidate state lives in fresh storage; (D3) the proposal is drawn '
-    'from where(assignments == cid) and is a frame of X; (D4) k-hybrid hands '
-    'the k-centers result fields to the sweeps unchanged; (D5) random_state is '
-    'threaded through every call level and no module-level RNG is used; (D6) '
-    'definite assignment of the returned result. The cost values themselves '
-    'are not decided.')
+    'commit of the PAM update is controlled by cost(candidate) < cost(current) '
+    'with both costs from the same callable, operand provenance checked, and '
+    'that callable is by default the (striped) mean of the squared distances; '
+    '(D2) inside the per-centre loop the four state variables are written only '
+    'under the accept condition and all four there, they take the candidate '
+    'whose cost was compared, and the candidate state lives in fresh storage; '
+    'the outputs of one sweep are the inputs of the next; (D3) the proposal is '
+    'drawn from where(assignments == cid), the proposed coordinate is the '
+    'frame of X at the proposed index (serial, MPI and explicit proposals); '
+    '(D4) k-hybrid hands the k-centers result fields to the sweeps unchanged; '
+    '(D5) random_state and proposals are threaded through every call level and '
+    'no module-level RNG is used; (D6) definite assignment of the returned '
+    'result; (D7) the supplied start state is not written; (D8) centres '
+    'supplied as (trajectory, frame) pairs are converted to the index in the '
+    'concatenated data, missing labels/distances are computed from the centre '
+    'frames. The cost values themselves are not decided.')
 
 
-def _pam(ck):
-    mod = ck.repo.mod(KM)
-    fn = mod.func('_kmedoids_pam_update')
-    ck.analysed(mod, fn)
-    return mod, fn, finfo(mod, fn)
+# ---------------------------------------------------------------------------
+# small helpers (candidates for a shared module)
+
+def _last(cn):
+    return (cn or '').split('.')[-1]
 
 
-def d1_accept(ck):
-    rule = 'C09.D1.accept'
-    mod, fn, fi = _pam(ck)
-    # the If whose body stores medoid_inds[...]
-    ifs = []
-    for n in walk_local(fn):
-        if isinstance(n, ast.If):
-            body_mod = ast.Module(body=n.body, type_ignores=[])
-            if any(isinstance(t, ast.Subscript) and u(t.value) == 'medoid_inds'
-                   for s in ast.walk(body_mod) if isinstance(s, ast.Assign)
-                   for t in s.targets):
-                ifs.append((n, True))
-            else_mod = ast.Module(body=n.orelse, type_ignores=[])
-            if any(isinstance(t, ast.Subscript) and u(t.value) == 'medoid_inds'
-                   for s in ast.walk(else_mod) if isinstance(s, ast.Assign)
-                   for t in s.targets):
-                ifs.append((n, False))
-    if len(ifs) != 1:
-        ck.missing(rule, 'accept branch (the branch storing medoid_inds[cid]); found %d' % len(ifs))
-        return None
-    node, pol = ifs[0]
-    cs = conjuncts(node.test, pol)
-    if cs is None or len(cs) != 1 or not isinstance(cs[0], Cmp):
-        ck.bad(rule, mod, node, '_kmedoids_pam_update', u(node.test),
-               'the accept test must be a single cost comparison')
-        return node, pol
-    less = cs[0].as_less()
-    if less is None:
-        ck.bad(rule, mod, node, '_kmedoids_pam_update', u(node.test),
-               'the accept test must be an ordering of two costs')
-        return node, pol
-    small, strict, big = less
-    # provenance of both operands
-    def cost_of(e):
-        v = fi.resolve(e) if isinstance(e, ast.Name) else e
-        if isinstance(v, ast.Call) and len(v.args) == 1:
-            return u(v.func), u(v.args[0])
-        return None, None
-    f1, a1 = cost_of(small)
-    f2, a2 = cost_of(big)
-    ok = f1 is not None and f1 == f2 and f1 in params(fn) and a1 == 'new_dist' and a2 == 'distances'
-    ck.check(ok, rule, mod, node, '_kmedoids_pam_update',
-             '%s  [%s = %s(%s), %s = %s(%s)]' % (cs[0], u(small), f1, a1, u(big), f2, a2),
-             'commit only if cost(candidate distances) %s cost(current distances)' % ('<' if strict else '<='),
-             'the branch that commits the candidate must be taken only when '
-             'cost(new_dist) < cost(distances) with both costs from the same `cost` '
-             'callable; found small side %s(%s), big side %s(%s): a reversed or '
-             'mismatched comparison lets a sweep increase the cost' % (f1, a1, f2, a2))
-    # the two costs must be computed after the candidate is complete: i.e.
-    # after every store into new_dist
-    cost_stmt = None
-    for nm in (small, big):
-        if isinstance(nm, ast.Name):
-            for site in fi.defs_of_use(nm):
-                if hasattr(site, 'lineno') and 'new_dist' in names_loaded(site.value if hasattr(site, 'value') else site):
-                    cost_stmt = site
-    if cost_stmt is not None:
-        late = [s for s, t in subscript_stores(fn, 'new_dist')
-                if fi.cfg.reachable(cost_stmt, s, avoiding=[_loop_of(mod, cost_stmt)])]
-        ck.check(not late, rule + '.complete', mod, cost_stmt, '_kmedoids_pam_update', u(cost_stmt),
-                 'candidate cost is computed after the last store into the candidate distances',
-                 'a store into new_dist follows the cost computation within the same trip')
-    return node, pol
+def _inside(mod, node, outer):
+    p = mod.parent.get(node)
+    while p is not None:
+        if p is outer:
+            return True
+        p = mod.parent.get(p)
+    return False
 
 
 def _loop_of(mod, node):
     p = mod.parent.get(node)
-    while p is not None and not isinstance(p, (ast.For, ast.While)):
+    while p is not None and not isinstance(p, (ast.For, ast.While, ast.FunctionDef)):
         p = mod.parent.get(p)
-    return p
+    return p if isinstance(p, (ast.For, ast.While)) else None
 
 
-def d2_atomic(ck, accept):
+_raw_cache = {}
+
+
+def _raw_params(cmod, callee):
+    """Parameter names of `callee` as spelled in the CURRENT source text.  The
+    front end may analyse a private helper in its reference spelling (normal
+    form equal to the reference, parameters alpha-renamed) while the call
+    sites in other functions still use the current keyword names."""
+    if cmod is None:
+        return None
+    key = id(cmod)
+    if key not in _raw_cache:
+        table = {}
+        try:
+            for n in ast.walk(ast.parse(cmod.src)):
+                if isinstance(n, (ast.FunctionDef, ast.AsyncFunctionDef)):
+                    table.setdefault(n.name, []).append(params(n))
+        except SyntaxError:
+            pass
+        _raw_cache[key] = table
+    cands = _raw_cache[key].get(getattr(callee, 'name', None), [])
+    return cands[0] if len(cands) == 1 else None
+
+
+def _bind(call, callee, cmod=None):
+    """Arguments of `call` by parameter name of `callee` (positional and
+    keyword); None if the call uses * / **, too many positionals or a keyword
+    the callee does not have."""
+    ps = params(callee)
+    if any(isinstance(a, ast.Starred) for a in call.args) or any(k.arg is None for k in call.keywords):
+        return None
+    if len(call.args) > len(ps):
+        return None
+    raw = _raw_params(cmod, callee)
+    alias = dict(zip(raw, ps)) if raw is not None and len(raw) == len(ps) else {}
+    b = {}
+    for p, a in zip(ps, call.args):
+        b[p] = a
+    for k in call.keywords:
+        name = alias.get(k.arg, k.arg) if k.arg not in ps or k.arg in alias else k.arg
+        if name not in ps:
+            if callee.args.kwarg is None:
+                return None
+            continue
+        b[name] = k.value
+    return b
+
+
+def _stable_value(fi, n):
+    """Defining expression of a Name use with exactly one reaching definition
+    `n = <expr>` none of whose operands is rebound between the definition and
+    the use.  Unlike FuncInfo.temp_value the expression need not be pure (a
+    call result bound to a name): the value of the name IS the value the
+    expression had at the definition."""
+    if not isinstance(n, ast.Name):
+        return None
+    try:
+        defs = fi.defs_of_use(n)
+    except Exception:
+        return None
+    if len(defs) != 1:
+        return None
+    site = next(iter(defs))
+    if site in ('PARAM', 'UNBOUND') or not isinstance(site, (ast.Assign, ast.AnnAssign)):
+        return None
+    v = fi.def_value(site, n.id)
+    if v is None:
+        return None
+    use = fi.stmt(n)
+    for m in walk_expr(v):
+        if isinstance(m, ast.Name) and isinstance(m.ctx, ast.Load):
+            if fi.rd.defs_at(site, m.id) != fi.rd.defs_at(use, m.id):
+                return None
+    return v
+
+
+def _orig_name(fi, e):
+    """Follow pure aliases `t = name` back to the ORIGINAL Name node (original
+    nodes keep their place in the reaching-definitions tables)."""
+    seen = 0
+    while isinstance(e, ast.Name) and seen < 6:
+        v = fi.temp_value(e)
+        if not isinstance(v, ast.Name):
+            break
+        e = v
+        seen += 1
+    return e
+
+
+def _conj(fi, test, polarity):
+    """patterns.conjuncts over ORIGINAL nodes, looking through boolean
+    temporaries (`better = a < b; if better:`)."""
+    cs = conjuncts(test, polarity)
+    if cs is None:
+        return None
+    out = []
+    for c in cs:
+        if isinstance(c, tuple) and isinstance(c[1], ast.Name):
+            v = fi.temp_value(c[1])
+            if isinstance(v, (ast.Compare, ast.BoolOp, ast.UnaryOp)):
+                sub = _conj(fi, v, c[2])
+                if sub is None:
+                    return None
+                out += sub
+                continue
+        out.append(c)
+    return out
+
+
+def _controlling(fi, mod, stmt, within=None):
+    """Branch conditions (Assume nodes) every path to `stmt` passes through,
+    restricted to conditions whose `if` lies inside `within`."""
+    out = []
+    for a in fi.cfg.nodes:
+        if isinstance(a, Assume) and fi.cfg.dominates(a, stmt):
+            if within is None or _inside(mod, a.owner, within):
+                out.append(a)
+    return out
+
+
+def _param_root(fi, e, through=('check_random_state',), depth=4):
+    """Name of the PARAMETER whose value `e` denotes - directly, through pure
+    aliases, or through the calls in `through` (check_random_state(p) is the
+    generator for seed p) - else None."""
+    if isinstance(e, ast.Call) and _last(call_name(e)) in through and len(e.args) == 1 and not e.keywords:
+        return _param_root(fi, e.args[0], through, depth)
+    if not isinstance(e, ast.Name) or depth <= 0:
+        return None
+    try:
+        defs = fi.defs_of_use(e)
+    except Exception:
+        return None
+    roots = set()
+    for site in defs:
+        if site == 'PARAM':
+            roots.add(e.id)
+            continue
+        if site == 'UNBOUND' or not isinstance(site, (ast.Assign, ast.AnnAssign)):
+            return None
+        v = fi.def_value(site, e.id)
+        r = _param_root(fi, v, through, depth - 1) if v is not None else None
+        if r is None:
+            return None
+        roots.add(r)
+    return roots.pop() if len(roots) == 1 else None
+
+
+def _seed_expr(fi, e, pname):
+    """`e` denotes the random_state parameter `pname`, possibly passed through
+    check_random_state()."""
+    return pname is not None and _param_root(fi, e) == pname
+
+
+def _no_redef_between(fi, name, a, b, loop):
+    """No (re)definition of `name` can execute after `a` and before `b`
+    within one trip of `loop`."""
+    avoid = [loop] if loop is not None else []
+    for d in assigns_to(fi.fn, name):
+        if d is a or d is b:
+            continue
+        if fi.cfg.reachable(a, d, avoiding=avoid + [b]) and fi.cfg.reachable(d, b, avoiding=avoid + [a]):
+            return False
+    return True
+
+
+class _Subst(ast.NodeTransformer):
+    """Replace sub-expressions by canonical text."""
+
+    def __init__(self, table):
+        self.table = table
+
+    def visit(self, node):
+        if isinstance(node, ast.expr):
+            t = u(node)
+            if t in self.table:
+                return ast.copy_location(ast.Name(id=self.table[t], ctx=ast.Load()), node)
+        return self.generic_visit(node)
+
+
+def _subst(node, table):
+    import copy
+    n = _Subst(table).visit(copy.deepcopy(node))
+    ast.fix_missing_locations(n)
+    return n
+
+
+# ---------------------------------------------------------------------------
+# roles of the PAM update
+
+class _Roles(object):
+    pass
+
+
+def _pam(ck):
+    mod = ck.repo.mod(KM)
+    fn = mod.func(PAM)
+    ck.analysed(mod, fn)
+    return mod, fn, finfo(mod, fn)
+
+
+def _roles(ck):
+    """Locate state variables, commit store, per-centre loop.  Returns None
+    (after ck.missing) when the function is not recognisable."""
     rule = 'C09.D2.atomic'
     mod, fn, fi = _pam(ck)
-    if accept is None:
-        return
-    node, pol = accept
-    branch = node.body if pol else node.orelse
-    loop = _loop_of(mod, node)
-    if loop is None:
-        ck.missing(rule, 'per-centre loop around the accept test')
-        return
-    # state variables: the names returned by the function
+    R = _Roles()
+    R.mod, R.fn, R.fi = mod, fn, fi
+    ps = params(fn)
+    if len(ps) < 5:
+        ck.missing(rule, '%s: parameters (X, metric, medoid_inds, assignments, distances, ...)' % PAM)
+        return None
+    R.X, R.metric, R.pMI, R.pA, R.pD = ps[:5]
+    # keyword parameters: located by their role (what is indexed by the centre id / what reaches the
+    # proposer's generator); the pinned names are only the fallback for the "never used" diagnosis
+    R.proposals = None
+    R.seed = None
+    R.ps = ps
     rets = returns_of(fn)
-    if len(rets) != 1 or not isinstance(rets[0].value, ast.Tuple):
-        ck.missing(rule, 'single tuple return of the PAM update')
+    rv = canon(fi.expand(rets[0].value)) if len(rets) == 1 and rets[0].value is not None else None
+    if rv is None or not isinstance(rv, ast.Tuple) or len(rv.elts) != 4 or not all(isinstance(e, ast.Name) for e in rv.elts):
+        ck.missing(rule, 'single `return (indices, distances, assignments, coordinates)` of the PAM update')
+        return None
+    R.ret = rets[0]
+    R.state = [e.id for e in rv.elts]
+    R.MI, R.D, R.A, R.MC = R.state
+    stores = [(s, t) for s, t in subscript_stores(fn, R.MI) if isinstance(_loop_of(mod, s), ast.For)]
+    if len(stores) != 1 or not isinstance(stores[0][0], ast.Assign):
+        ck.missing(rule, 'exactly one store `%s[<centre>] = <proposal index>` inside a for loop (found %d)' % (R.MI, len(stores)))
+        return None
+    R.commit, R.commit_target = stores[0]
+    R.loop = _loop_of(mod, R.commit)
+    tg = R.loop.target
+    if isinstance(tg, ast.Tuple) and len(tg.elts) == 2 and isinstance(R.loop.iter, ast.Call) and call_name(R.loop.iter) == 'enumerate':
+        tg = tg.elts[0]
+    if not isinstance(tg, ast.Name):
+        ck.missing(rule, 'per-centre loop with a plain loop variable')
+        return None
+    R.cid = tg.id
+    R.guards = _controlling(fi, mod, R.commit, R.loop)
+    # innermost branch condition controlling the commit: the commit region
+    R.region = None
+    for g in R.guards:
+        if all(o is g or fi.cfg.dominates(o, g) for o in R.guards):
+            R.region = g
+    R.accept = None
+    R.cand_dist = None
+    R.cost = None
+    return R
+
+
+# ---------------------------------------------------------------------------
+# D1 accept test
+
+def d1_accept(ck, R):
+    rule = 'C09.D1.accept'
+    if R is None:
         return
-    state = [u(e) for e in rets[0].value.elts]
-    want = ['medoid_inds', 'distances', 'assignments', 'medoid_coords']
-    ck.check(state == want, rule + '.return', mod, rets[0], '_kmedoids_pam_update', u(rets[0]),
+    mod, fn, fi = R.mod, R.fn, R.fi
+
+    def cost_of(e):
+        """{'f': text of the callable, 'fn': its Name node or None, 'arg': the argument expression,
+        'st': the statement evaluating it} for `f(x)`, `mod.f(x)` or `x.m()`."""
+        v, st = e, fi.stmt(e)
+        if isinstance(e, ast.Name):
+            v = _stable_value(fi, e)
+            if v is None:
+                return None
+            st = next(iter(fi.defs_of_use(e)))
+        if not isinstance(v, ast.Call) or v.keywords:
+            return None
+        if isinstance(v.func, ast.Name) and len(v.args) == 1:
+            return {'f': v.func.id, 'fn': v.func, 'arg': v.args[0], 'st': st}
+        if isinstance(v.func, ast.Attribute) and call_name(v) and len(v.args) == 1 and call_name(v).split('.')[0] in ('np', 'numpy', 'math', 'mpi'):
+            return {'f': call_name(v), 'fn': None, 'arg': v.args[0], 'st': st}
+        if isinstance(v.func, ast.Attribute) and not v.args and isinstance(v.func.value, ast.Name):
+            return {'f': '<array>.%s' % v.func.attr, 'fn': None, 'arg': v.func.value, 'st': st}
+        return None
+
+    if not R.guards:
+        if isinstance(R.commit.value, ast.Name):
+            ck.bad(rule, mod, R.commit, PAM, u(R.commit),
+                   'the proposal is committed unconditionally: no branch condition of the per-centre loop controls '
+                   'the store of the new centre index, so a proposal that raises the cost is kept')
+        else:
+            ck.missing(rule, 'accept condition: the commit `%s` is not controlled by a branch of the per-centre loop' % u(R.commit)[:100])
+        return
+    found = []       # (assume, Cmp, provenance small, provenance big)
+    extra = []
+    disjunction = []
+    for a in R.guards:
+        cs = _conj(fi, a.test, a.polarity)
+        if cs is None:
+            disjunction.append(a)
+            continue
+        for c in cs:
+            if isinstance(c, Cmp):
+                pl, pr = cost_of(c.lhs), cost_of(c.rhs)
+                if pl is not None and pr is not None:
+                    found.append((a, c, pl, pr))
+                    continue
+            extra.append((a, c))
+    for a in disjunction:
+        costly = [n for n in walk_expr(a.test) if isinstance(n, ast.Compare) and len(n.ops) == 1
+                  and cost_of(n.left) is not None and cost_of(n.comparators[0]) is not None]
+        if costly:
+            ck.bad(rule, mod, a.owner, PAM, u(a.test),
+                   'the accept test must be a single cost comparison: here the commit is also reached when '
+                   '`%s` does not hold' % u(costly[0]))
+        else:
+            ck.missing(rule, 'accept condition `%s` (polarity %s) is a disjunction the rule does not model' % (u(a.test)[:100], a.polarity))
+        return
+    if len(found) != 1:
+        ck.missing(rule, 'accept condition: exactly one comparison of two costs `<cost>(<candidate>) < <cost>(<current>)` '
+                   'controlling the commit (found %d among: %s)' % (len(found), '; '.join(u(a.test)[:60] for a in R.guards)))
+        return
+    a, cmp_, pl, pr = found[0]
+    R.accept = a
+    less = cmp_.as_less()
+    if less is None:
+        ck.bad(rule, mod, a.owner, PAM, str(cmp_),
+               'the accept test must be an ordering of two costs (commit only if the cost goes down), found `%s`' % cmp_.rel)
+        return
+    small, strict, big = less
+    ps_, pb_ = (pl, pr) if small is cmp_.lhs else (pr, pl)
+    f1, a1, st1 = ps_['f'], ps_['arg'], ps_['st']
+    f2, a2, st2 = pb_['f'], pb_['arg'], pb_['st']
+    x1, x2 = fi.xu(a1), fi.xu(a2)
+    desc = '%s  [%s = %s(%s), %s = %s(%s)]' % (cmp_, u(small), f1, x1, u(big), f2, x2)
+    why = ('the branch that commits the candidate must be taken only when cost(<candidate distances>) < '
+           'cost(<current distances>) with both costs from the same callable; found small side %s(%s), big side '
+           '%s(%s): a reversed or mismatched comparison lets a sweep increase the cost' % (f1, x1, f2, x2))
+    if f1 != f2:
+        ck.bad(rule, mod, a.owner, PAM, desc, why)
+        return
+    # the callable: a parameter that is never rebound, or a module-level function
+    fdefs = (fi.defs_of_use(ps_['fn']) | fi.defs_of_use(pb_['fn'])) if ps_['fn'] is not None and pb_['fn'] is not None else None
+    if fdefs == {'PARAM'}:
+        R.cost = ('param', f1)
+    elif fdefs is not None and not fdefs and f1 in mod.functions:
+        R.cost = ('function', f1)
+    else:
+        ck.missing(rule, 'provenance of the cost callable `%s`' % f1)
+        return
+    # operands: one side is the CURRENT distances (state variable), the other a per-trip candidate
+
+    def loop_local(arg, st):
+        n = _orig_name(fi, arg)
+        if not isinstance(n, ast.Name):
+            return None
+        ds = fi.rd.defs_at(st, n.id)
+        return bool(ds) and all(d not in ('PARAM', 'UNBOUND') and _inside(mod, d, R.loop) for d in ds)
+
+    if x2 == R.D and x1 != R.D:
+        ll = loop_local(a1, st1)
+        if ll is None:
+            ck.missing(rule, 'candidate operand `%s` of the accept test is not a named array' % x1)
+            return
+        if not ll:
+            ck.bad(rule, mod, a.owner, PAM, desc,
+                   'the cost on the small side is not the cost of a candidate built in this trip of the loop '
+                   '(`%s` is defined outside the per-centre loop): %s' % (x1, why))
+            return
+        ck.ok(rule, mod, a.owner, desc, 'commit only if cost(candidate distances) %s cost(current distances)' % ('<' if strict else '<='))
+        R.cand_dist = _orig_name(fi, a1).id
+    elif x1 == R.D and x2 != R.D:
+        ck.bad(rule, mod, a.owner, PAM, desc, why)
+        return
+    elif x1 == x2:
+        ck.bad(rule, mod, a.owner, PAM, desc, 'both sides of the accept test are the cost of the same array: ' + why)
+        return
+    else:
+        ck.missing(rule, 'accept test `%s`: neither operand is the cost of the current distances `%s`' % (desc[:120], R.D))
+        return
+    for a2_, c in extra:
+        ck.missing(rule, 'additional accept condition `%s` not modelled' % (str(c) if isinstance(c, Cmp) else u(c[1]))[:100])
+    # the candidate must be complete when its cost is taken: no store into it afterwards in the same trip
+    cand = R.cand_dist
+    late = [s for s in fi._mutated_in_place(cand) + assigns_to(R.loop, cand)
+            if _inside(mod, s, R.loop) and s is not st1 and fi.cfg.reachable(st1, s, avoiding=[R.loop])]
+    ck.check(not late, rule + '.complete', mod, late[0] if late else st1, PAM, u(late[0] if late else st1)[:160],
+             'candidate cost is computed after the last store into the candidate distances',
+             'a store into the candidate distances `%s` follows the cost computation within the same trip' % cand)
+
+
+def d1_cost(ck, R):
+    """The callable that orders the candidates is, by default, the mean of the
+    SQUARED distances (the cost the property speaks about)."""
+    rule = 'C09.D1.cost'
+    if R is None or R.cost is None:
+        return
+    mod, fn = R.mod, R.fn
+    kind, name = R.cost
+    g = None
+    if kind == 'param':
+        d = param_default(fn, name)
+        if isinstance(d, ast.Name) and d.id in mod.functions:
+            g = mod.functions[d.id]
+        elif isinstance(d, ast.Lambda):
+            g = d
+        else:
+            ck.missing(rule, 'default of the cost parameter `%s` (%s) is not a function of this module' % (name, u(d)))
+            return
+        # nobody overrides it
+        for rel in (KM, HY):
+            m = ck.repo.mod(rel)
+            for q, f in m.functions.items():
+                for c in calls_in(f):
+                    if _last(call_name(c)) != PAM:
+                        continue
+                    b = _bind(c, fn, mod)
+                    if b is None:
+                        ck.missing(rule, 'arguments of `%s` in %s' % (u(c)[:80], q))
+                    elif name in b and not (isinstance(b[name], ast.Name) and isinstance(d, ast.Name) and b[name].id == d.id):
+                        ck.missing(rule, '%s passes its own cost callable `%s`: not modelled' % (q, u(b[name])[:60]))
+    else:
+        g = mod.functions[name]
+    if isinstance(g, ast.Lambda):
+        gps = [a.arg for a in g.args.args]
+        body, gname, node = g.body, '%s (default of %s)' % (u(g)[:40], name), g
+        expanded = body
+    else:
+        ck.analysed(mod, g)
+        gps = params(g)
+        gname = g.name
+        rets = returns_of(g)
+        if len(rets) != 1 or rets[0].value is None:
+            ck.missing(rule, 'single return of the cost function %s' % gname)
+            return
+        node = rets[0]
+        expanded = finfo(mod, g).expand(rets[0].value)
+    if len(gps) != 1:
+        ck.missing(rule, 'cost function %s with a single parameter' % gname)
+        return
+    x = gps[0]
+
+    # model: the striped mean IS the mean of the distributed array
+    class M(ast.NodeTransformer):
+        def visit_Call(self, n):
+            self.generic_visit(n)
+            if _last(call_name(n)) == 'striped_array_mean' and len(n.args) == 1 and not n.keywords:
+                return ast.copy_location(ast.Call(func=ast.Attribute(value=n.args[0], attr='mean', ctx=ast.Load()), args=[], keywords=[]), n)
+            return n
+    import copy
+    modelled = M().visit(copy.deepcopy(expanded))
+    ast.fix_missing_locations(modelled)
+    sq = ['np.square(%s)' % x, '(%s ** 2)' % x, '(%s * %s)' % (x, x), 'np.power(%s, 2)' % x, 'np.multiply(%s, %s)' % (x, x),
+          '(%s ** 2.0)' % x, '(np.abs(%s) ** 2)' % x, '(abs(%s) ** 2)' % x, '(np.abs(%s) * np.abs(%s))' % (x, x),
+          '(abs(%s) * abs(%s))' % (x, x), 'np.power(%s, 2.0)' % x, 'np.float_power(%s, 2)' % x]
+    forms = []
+    for s in sq:
+        forms += ['%s.mean()' % s, 'np.average(%s)' % s, 'float(%s.mean())' % s, '%s.mean(axis=0)' % s,
+                  '%s.sum() / len(%s)' % (s, x), '%s.sum() / %s.size' % (s, x), '%s.sum() / %s.shape[0]' % (s, x),
+                  'sum(%s) / len(%s)' % (s, x)]
+    forms += ['np.dot(%s, %s) / len(%s)' % (x, x, x), '%s.dot(%s) / len(%s)' % (x, x, x), '(%s @ %s) / len(%s)' % (x, x, x)]
+    v = classify(modelled, forms, scope={x})
+    ck.decide(v, rule, mod, node, gname if not isinstance(g, ast.Lambda) else PAM, u(node)[:200],
+              'candidates are ordered by the mean SQUARED distance',
+              'the cost that decides acceptance must be the mean of the squared frame-to-centre distances '
+              '(mean(square(d))): with another function of the distances a proposal can be accepted although the '
+              'mean squared distance goes up')
+
+
+# ---------------------------------------------------------------------------
+# D2 atomic commit
+
+_FRESH_CALLS = {'zeros_like', 'full_like', 'empty_like', 'ones_like', 'full', 'zeros', 'ones', 'empty', 'copy', 'deepcopy',
+                'astype', 'where', 'arange', 'repeat', 'tile', 'array', 'choose', 'select', 'minimum', 'maximum', 'concatenate'}
+_ALIAS_CALLS = {'asarray', 'asanyarray', 'atleast_1d', 'view', 'reshape', 'ravel', 'squeeze', 'transpose', 'ascontiguousarray',
+                'swapaxes', 'asfortranarray'}
+
+
+def _array_freshness(v):
+    """'fresh' (a new ndarray), 'alias' (may share storage with an operand), or None."""
+    if isinstance(v, (ast.BinOp, ast.UnaryOp, ast.Compare)):
+        return 'fresh'
+    if isinstance(v, ast.Call):
+        f = _last(call_name(v)) if call_name(v) else (v.func.attr if isinstance(v.func, ast.Attribute) else None)
+        if f == 'array' and kwarg(v, 'copy') is not None and const_value(kwarg(v, 'copy')) is not True:
+            return 'alias'
+        if f in _FRESH_CALLS:
+            return 'fresh'
+        if f in _ALIAS_CALLS:
+            return 'alias'
+        return None
+    if isinstance(v, ast.Name):
+        return 'alias'
+    if isinstance(v, ast.Attribute) and v.attr in ('T', 'real', 'flat'):
+        return 'alias'
+    if isinstance(v, ast.Subscript):
+        sl = v.slice
+        parts = sl.elts if isinstance(sl, ast.Tuple) else [sl]
+        if all(isinstance(p, ast.Slice) or (isinstance(p, ast.Constant) and p.value in (None, Ellipsis)) for p in parts):
+            return 'alias'
+        return None
+    return None
+
+
+def _writes_in(fi, mod, loop, var):
+    out = list(assigns_to(loop, var))
+    for s in fi._mutated_in_place(var):
+        if _inside(mod, s, loop) and s not in out:
+            out.append(s)
+    return out
+
+
+def _index_sets(fi, loop, name):
+    return sorted({fi.xu(t.slice, strict=False) for s, t in subscript_stores(loop, name)})
+
+
+def d2_atomic(ck, R):
+    rule = 'C09.D2.atomic'
+    if R is None:
+        return
+    mod, fn, fi, loop = R.mod, R.fn, R.fi, R.loop
+    # --- return order = (indices, distances, labels, coordinates): the rebound parameters 3, 5, 4
+    ok = (R.MI, R.D, R.A) == (R.pMI, R.pD, R.pA) and R.MC not in (R.pMI, R.pD, R.pA, R.X)
+    ck.check(ok, rule + '.return', mod, R.ret, PAM, u(R.ret),
              'returns (indices, distances, assignments, coordinates)',
-             'return order must be (medoid_inds, distances, assignments, medoid_coords); '
-             'callers unpack it positionally')
-    branch_nodes = set()
-    for s in branch:
-        for x in ast.walk(s):
-            branch_nodes.add(x)
-    writes_in_branch = set()
-    for var in state:
-        writes = []
-        for s in walk_local(loop):
-            if isinstance(s, (ast.Assign, ast.AugAssign, ast.AnnAssign)):
-                tgts = s.targets if isinstance(s, ast.Assign) else [s.target]
-                for t in tgts:
-                    for tt in (t.elts if isinstance(t, (ast.Tuple, ast.List)) else [t]):
-                        if isinstance(tt, ast.Name) and tt.id == var:
-                            writes.append(s)
-                        elif isinstance(tt, (ast.Subscript, ast.Attribute)) and u(tt.value) == var:
-                            writes.append(s)
-            if isinstance(s, ast.Call) and isinstance(s.func, ast.Attribute) and \
-                    u(s.func.value) == var and s.func.attr in (
-                        'append', 'extend', 'insert', 'pop', 'remove', 'sort', 'fill', 'clear'):
-                writes.append(s)
-        outside = [w for w in writes if w not in branch_nodes]
-        inside = [w for w in writes if w in branch_nodes]
-        for w in outside:
-            ck.bad(rule + '.only-in-accept', mod, w, '_kmedoids_pam_update', u(w)[:160],
-                   'current state variable `%s` is written outside the accept branch: '
-                   'part of the candidate is committed before/without the decision' % var)
-        if inside:
-            writes_in_branch.add(var)
-        ck.check(bool(inside), rule + '.all-four', mod, node, '_kmedoids_pam_update',
+             'return order must be (%s, %s, %s, <centre coordinates>); callers unpack it positionally' % (R.pMI, R.pD, R.pA))
+    acc = R.accept if R.accept is not None else R.region
+    if acc is None:
+        ck.missing(rule, 'no branch condition controls the commit (see C09.D1.accept): the commit region is unknown')
+        return
+    node = acc.owner
+    # --- every write to a state variable inside the loop is controlled by the accept condition; all four are written
+    for var in R.state:
+        writes = _writes_in(fi, mod, loop, var)
+        inside = [w for w in writes if fi.cfg.dominates(acc, w)]
+        for w in writes:
+            if w not in inside:
+                ck.bad(rule + '.only-in-accept', mod, w, PAM, u(w)[:160],
+                       'current state variable `%s` is written outside the accept branch: '
+                       'part of the candidate is committed before/without the decision' % var)
+        ck.check(bool(inside), rule + '.all-four', mod, node, PAM,
                  'accept branch writes %s' % var,
                  '`%s` is replaced in the accept branch' % var,
                  'the accept branch does not update `%s`: the accepted candidate is '
                  'committed only partially (labels/distances/coordinates/indices go out of step)' % var)
-    # values committed are the candidate ones
-    pairs = {'distances': 'new_dist', 'assignments': 'new_assig', 'medoid_coords': 'new_medoids'}
-    for s in branch:
-        if isinstance(s, ast.Assign):
-            t = s.targets[0]
-            if isinstance(t, ast.Tuple) and isinstance(s.value, ast.Tuple):
-                for te, ve in zip(t.elts, s.value.elts):
-                    if u(te) in pairs:
-                        ck.check(u(ve) == pairs[u(te)], rule + '.values', mod, s,
-                                 '_kmedoids_pam_update', '%s = %s' % (u(te), u(ve)),
-                                 'current %s takes the candidate' % u(te),
-                                 '`%s` must be replaced by the candidate `%s`, found `%s`' % (u(te), pairs[u(te)], u(ve)))
-            elif isinstance(t, ast.Name) and t.id in pairs:
-                ck.check(u(s.value) == pairs[t.id], rule + '.values', mod, s,
-                         '_kmedoids_pam_update', u(s), 'current %s takes the candidate' % t.id,
-                         '`%s` must be replaced by the candidate `%s`' % (t.id, pairs[t.id]))
-            elif isinstance(t, ast.Subscript) and u(t.value) == 'medoid_inds':
-                ok = u(t.slice) == u(loop.target) and u(s.value) == 'proposed_center_ind'
-                ck.check(ok, rule + '.values', mod, s, '_kmedoids_pam_update', u(s),
-                         'index of the replaced centre takes the proposal index',
-                         'medoid_inds[<loop centre>] must take proposed_center_ind')
-    # candidate storage is fresh
-    for name in ('new_dist', 'new_assig'):
-        for s in assigns_to(loop, name):
-            if isinstance(s, ast.Assign):
-                v = s.value
-                fresh = isinstance(v, (ast.BinOp,)) or (isinstance(v, ast.Call) and (
-                    call_name(v) or '').split('.')[-1] in (
-                        'zeros_like', 'full_like', 'empty_like', 'full', 'zeros', 'copy', 'array'))
-                ck.check(fresh, rule + '.fresh', mod, s, '_kmedoids_pam_update', u(s),
+
+    # --- the values committed are the candidate ones
+    def committed(var):
+        out = []
+        for s in assigns_to(loop, var):
+            if fi.cfg.dominates(acc, s) and isinstance(s, ast.Assign):
+                v = fi.def_value(s, var)
+                out.append((s, _orig_name(fi, v) if v is not None else None))
+        return out
+
+    cands = {}
+    for var in (R.D, R.A, R.MC):
+        cs = committed(var)
+        if len(cs) != 1 or not isinstance(cs[0][1], ast.Name):
+            if cs:
+                ck.missing(rule + '.values', 'value committed to `%s` is not a single named candidate: %s' % (var, '; '.join(u(s)[:60] for s, _ in cs)))
+            continue
+        cands[var] = cs[0]
+    others = set(R.state) | {R.X}
+    if R.D in cands:
+        s, v = cands[R.D]
+        if R.cand_dist is None:
+            ck.missing(rule + '.values', 'candidate distances unknown (accept test not established)')
+        else:
+            ck.check(v.id == R.cand_dist, rule + '.values', mod, s, PAM, '%s = %s' % (R.D, v.id),
+                     'current distances take the candidate whose cost was compared',
+                     '`%s` must be replaced by the candidate `%s` whose cost decided the acceptance, found `%s`' % (R.D, R.cand_dist, v.id))
+    NA = NM = None
+    if R.A in cands:
+        s, v = cands[R.A]
+        NA = v.id
+        lab = [st for st, t in subscript_stores(loop, NA) if fi.xu(st.value) == R.cid]
+        if NA in others or NA == R.cand_dist:
+            ck.bad(rule + '.values', mod, s, PAM, '%s = %s' % (R.A, NA),
+                   '`%s` must be replaced by the candidate labels, found `%s` (%s)' % (
+                       R.A, NA, 'the candidate distances' if NA == R.cand_dist else 'a current state variable'))
+        elif R.cand_dist is not None and lab and _index_sets(fi, loop, NA) == _index_sets(fi, loop, R.cand_dist):
+            ck.ok(rule + '.values', mod, s, '%s = %s' % (R.A, NA),
+                  'current labels take the candidate built under the same index sets as the candidate distances')
+        else:
+            ck.missing(rule + '.values', 'candidate labels `%s`: not recognised as the array filled together with the '
+                       'candidate distances (stores of `%s` under the same index sets)' % (NA, R.cid))
+    if R.MC in cands:
+        s, v = cands[R.MC]
+        NM = v.id
+        if NM in others or NM in (R.cand_dist, NA):
+            ck.bad(rule + '.values', mod, s, PAM, '%s = %s' % (R.MC, NM),
+                   '`%s` must be replaced by the candidate centre list, found `%s`' % (R.MC, NM))
+            NM = None
+    # --- index of the replaced centre takes the proposal index
+    PI = _orig_name(fi, R.commit.value)
+    kx = fi.xu(R.commit_target.slice)
+    if kx != R.cid:
+        v = classify(fi.expand(R.commit_target.slice), [R.cid], scope={R.cid})
+        ck.decide(v, rule + '.values', mod, R.commit, PAM, u(R.commit), '',
+                  '%s[<loop centre %s>] must take the proposal index' % (R.MI, R.cid))
+        PI = PI if isinstance(PI, ast.Name) else None
+    elif not isinstance(PI, ast.Name):
+        ck.missing(rule + '.values', 'value stored by `%s` is not a named proposal index' % u(R.commit)[:100])
+        PI = None
+    else:
+        ck.ok(rule + '.values', mod, R.commit, u(R.commit), 'index of the replaced centre takes the proposal index')
+
+    # --- candidate storage is fresh each trip
+    for var, cname in ((R.D, R.cand_dist), (R.A, NA)):
+        if cname is None or var not in cands:
+            continue
+        ds = fi.rd.defs_at(cands[var][0], cname)
+        for d in ds:
+            if d in ('PARAM', 'UNBOUND') or not _inside(mod, d, loop):
+                ck.bad(rule + '.fresh', mod, cands[var][0], PAM, '%s = %s' % (var, cname),
+                       'candidate array `%s` must be fresh storage built in this trip, not an object from outside the loop' % cname)
+                continue
+            val = fi.def_value(d, cname) if isinstance(d, (ast.Assign, ast.AnnAssign)) else None
+            fr = _array_freshness(fi.expand(val)) if val is not None else None
+            if fr is None:
+                ck.missing(rule + '.fresh', 'allocation of the candidate array `%s`: %s' % (cname, u(d)[:100]))
+            else:
+                ck.check(fr == 'fresh', rule + '.fresh', mod, d, PAM, u(d),
                          'candidate array is freshly allocated each trip',
-                         'candidate array `%s` must be fresh storage, not an alias of the current state' % name)
-    nm = [x for x in assigns_to(loop, 'new_medoids') if isinstance(x, ast.Assign)]
-    okc = len(nm) == 1 and isinstance(nm[0].value, (ast.Call, ast.Subscript)) and \
-        u(nm[0].value) in ('medoid_coords.copy()', 'list(medoid_coords)',
-                           'copy.copy(medoid_coords)', 'medoid_coords[:]')
-    ck.check(okc, rule + '.fresh', mod, nm[0] if nm else loop, '_kmedoids_pam_update',
-             u(nm[0]) if nm else 'new_medoids', 'candidate centre list is a fresh copy of the current one',
-             'the candidate centre list must be a COPY of medoid_coords: if it aliases the current '
-             'list, `new_medoids[cid] = proposed_center` commits the proposal before the '
-             'accept/reject decision and a rejected proposal stays behind')
+                         'candidate array `%s` must be fresh storage, not an alias of the current state' % cname)
+    P = None
+    if NM is not None:
+        s = cands[R.MC][0]
+        ds = fi.rd.defs_at(s, NM)
+        copies = ['%s.copy()' % R.MC, 'list(%s)' % R.MC, 'copy.copy(%s)' % R.MC, '%s[:]' % R.MC, '[_C for _C in %s]' % R.MC,
+                  'copy.deepcopy(%s)' % R.MC, '[*%s]' % R.MC, '%s + []' % R.MC, 'list(%s.copy())' % R.MC, '%s[0:]' % R.MC,
+                  'list(%s[:])' % R.MC]
+        for d in ds:
+            if d in ('PARAM', 'UNBOUND') or not _inside(mod, d, loop) or not isinstance(d, (ast.Assign, ast.AnnAssign)):
+                ck.missing(rule + '.fresh', 'definition of the candidate centre list `%s` inside the per-centre loop' % NM)
+                continue
+            val = fi.def_value(d, NM)
+            if val is None:
+                ck.missing(rule + '.fresh', 'definition of the candidate centre list: %s' % u(d)[:100])
+                continue
+            v = classify(fi.expand(val, stop=(R.MC,)), copies, scope={R.MC})
+            ck.decide(v, rule + '.fresh', mod, d, PAM, u(d), 'candidate centre list is a fresh copy of the current one',
+                      'the candidate centre list must be a COPY of %s: if it aliases the current '
+                      'list, `%s[%s] = <proposed centre>` commits the proposal before the '
+                      'accept/reject decision and a rejected proposal stays behind' % (R.MC, NM, R.cid))
+        # the proposal is swapped in at the position of the centre being updated
+        muts = [m for m in fi._mutated_in_place(NM) if _inside(mod, m, loop)]
+        sw = [(m, t) for m, t in subscript_stores(loop, NM) if isinstance(m, ast.Assign)]
+        if len(muts) == 1 and len(sw) == 1 and sw[0][0] is muts[0]:
+            m, t = sw[0]
+            v = classify(fi.expand(t.slice), [R.cid], scope={R.cid})
+            ck.decide(v, rule + '.values', mod, m, PAM, u(m), 'the proposed coordinate replaces the centre being updated',
+                      'the proposed coordinate must be stored at position %s (the centre whose index is replaced)' % R.cid)
+            P = _orig_name(fi, m.value)
+            if not isinstance(P, ast.Name):
+                ck.missing('C09.D3.frame', 'value swapped into the candidate centre list is not a named coordinate: %s' % u(m)[:100])
+                P = None
+        else:
+            ck.missing(rule + '.values', 'exactly one in-place change `%s[%s] = <proposed centre>` of the candidate centre list (found %d)' % (NM, R.cid, len(muts)))
+    R.PI, R.P, R.NM, R.NA = PI, P, NM, NA
 
 
-def d3_members(ck):
+# ---------------------------------------------------------------------------
+# D3 proposals: members of the cluster, frames of X, index and coordinate in step
+
+def _distribute_args(ck, c):
+    """(data, world_index, owner_rank) of a distribute_frame call."""
+    try:
+        callee = ck.repo.mod(OPS).func('distribute_frame')
+        b = _bind(c, callee, ck.repo.mod(OPS))
+        names = params(callee)[:3]
+    except AnalysisIncomplete:
+        b, names = None, None
+    if b is None or names != ['data', 'world_index', 'owner_rank']:
+        return None
+    return b.get('data'), b.get('world_index'), b.get('owner_rank')
+
+
+def d3_members(ck, R):
     rule = 'C09.D3.members'
-    mod, fn, fi = _pam(ck)
-    loop = None
-    for l in walk_local(fn):
-        if isinstance(l, ast.For) and any(
-                isinstance(c, ast.Call) and (call_name(c) or '').endswith('_propose_new_center_amongst')
-                for c in walk_local(l)):
-            loop = l
-    if loop is None:
-        ck.missing(rule, 'loop calling _propose_new_center_amongst')
+    if R is None:
+        mod = ck.repo.mod(KM)
+        _proposer(ck, mod, mod.func(PROPOSER))
         return
-    cid = u(loop.target)
-    calls = [c for c in calls_in(loop) if (call_name(c) or '').endswith('_propose_new_center_amongst')]
+    mod, fn, fi, loop = R.mod, R.fn, R.fi, R.loop
+    fnp = mod.func(PROPOSER)
+    calls = [c for c in calls_in(loop) if _last(call_name(c)) == PROPOSER]
+    if not calls:
+        ck.missing(rule, 'call of %s in the per-centre loop' % PROPOSER)
+    pps = params(fnp)
     for c in calls:
-        X = c.args[0] if c.args else kwarg(c, 'X')
-        si = c.args[1] if len(c.args) > 1 else kwarg(c, 'state_inds')
-        okX = u(X) == params(fn)[0]
-        v = fi.resolve(si) if isinstance(si, ast.Name) else si
-        okS = isinstance(v, ast.Subscript) and u(v.slice) == '0' and isinstance(v.value, ast.Call) \
-            and call_name(v.value) == 'np.where' and u(v.value.args[0]) in (
-                'assignments == %s' % cid, '%s == assignments' % cid)
-        ck.check(okX and okS, rule, mod, c, '_kmedoids_pam_update',
-                 '%s with %s = %s' % (u(c)[:100], u(si), u(v)),
-                 'proposal drawn among the frames currently assigned to the centre being updated',
-                 'the proposal pool must be np.where(assignments == %s)[0] over the data X' % cid)
-        rs = kwarg(c, 'random_state') or (c.args[3] if len(c.args) > 3 else None)
-        ck.check(rs is not None and u(rs) == 'random_state', 'C09.D5.seed', mod, c,
-                 '_kmedoids_pam_update', u(c)[:120], 'random_state forwarded to the proposer',
-                 'random_state is not forwarded to _propose_new_center_amongst')
-    fnp = mod.func('_propose_new_center_amongst')
+        b = _bind(c, fnp, mod)
+        if b is None or len(pps) < 4 or pps[0] not in b or pps[1] not in b:
+            ck.missing(rule, 'arguments of `%s`' % u(c)[:100])
+            continue
+        Xa, si = b[pps[0]], b[pps[1]]
+        A, k = R.A, R.cid
+        forms = []
+        for m in ('%s == %s' % (A, k), '%s == %s' % (k, A)):
+            forms += ['np.where(%s)[0]' % m, 'np.nonzero(%s)[0]' % m, '(%s).nonzero()[0]' % m, 'np.arange(len(%s))[%s]' % (A, m),
+                      'np.argwhere(%s).ravel()' % m, 'np.argwhere(%s).flatten()' % m, 'np.argwhere(%s)[:, 0]' % m,
+                      'np.arange(%s.shape[0])[%s]' % (A, m), 'np.arange(%s.size)[%s]' % (A, m)]
+        scope = {A, k, R.D} | {x for x in (R.cand_dist, getattr(R, 'NA', None)) if x}
+        v = classify(fi.expand(si), forms, scope=scope)
+        vx = classify(fi.expand(Xa, stop=(R.X,)), [R.X], scope={R.X})
+        both = v if v[0] != 'match' else vx
+        ck.decide(both, rule, mod, c, PAM, '%s with %s = %s' % (u(c)[:100], u(si), fi.xu(si)),
+                  'proposal drawn among the frames currently assigned to the centre being updated',
+                  'the proposal pool must be np.where(%s == %s)[0] over the data %s' % (A, k, R.X))
+        rs = b.get(pps[3])
+        root = _param_root(fi, rs) if rs is not None else None
+        ck.check(root is not None, 'C09.D5.seed', mod, c,
+                 PAM, u(c)[:120], 'random_state forwarded to the proposer',
+                 'random_state is not forwarded to %s' % PROPOSER)
+        R.seed = root if R.seed in (None, root) else R.seed
+    _proposer(ck, mod, fnp)
+    _pairing(ck, R, fnp)
+
+
+def _proposer(ck, mod, fnp):
+    rule = 'C09.D3.members'
     fip = finfo(mod, fnp)
     ck.analysed(mod, fnp)
+    pps = params(fnp)
+    if len(pps) < 4:
+        ck.missing(rule, 'parameters (X, state_inds, mpi_mode, random_state) of %s' % PROPOSER)
+        return
+    X, SI, MPI, RS = pps[:4]
+    # --- serial draw
     ch = [c for c in calls_in(fnp) if isinstance(c.func, ast.Attribute) and c.func.attr == 'choice']
-    ok = len(ch) == 1 and u(ch[0].func.value) == 'random_state' and ch[0].args and u(ch[0].args[0]) == 'state_inds'
-    ck.check(ok, rule, mod, ch[0] if ch else fnp, '_propose_new_center_amongst',
-             u(ch[0]) if ch else 'random_state.choice(state_inds)',
-             'serial proposal = random_state.choice(state_inds)',
-             'serial proposal must be random_state.choice(state_inds)')
-    ri = [c for c in calls_in(fnp) if (call_name(c) or '').endswith('randind')]
-    ok = len(ri) == 1 and len(ri[0].args) >= 2 and u(ri[0].args[0]) == 'state_inds' and u(ri[0].args[1]) == 'random_state'
-    ck.check(ok, rule, mod, ri[0] if ri else fnp, '_propose_new_center_amongst',
-             u(ri[0]) if ri else 'randind', 'MPI proposal = randind(state_inds, random_state)',
-             'MPI proposal must be mpi.ops.randind(state_inds, random_state)')
-    # the rank-r broadcast sends state_inds[idx]
-    bc = [c for c in calls_in(fnp) if (call_name(c) or '').endswith('comm.bcast')]
-    sends = [c for c in bc if c.args and u(c.args[0]) != 'None']
-    ok = len(sends) == 1 and u(sends[0].args[0]) == 'state_inds[idx]'
-    ck.check(ok, rule, mod, sends[0] if sends else fnp, '_propose_new_center_amongst',
-             u(sends[0]) if sends else 'bcast', 'owner broadcasts the member frame index state_inds[idx]',
-             'the owner must broadcast state_inds[idx] (a member frame), not the position idx')
+    if len(ch) != 1:
+        ck.missing(rule, 'exactly one `<random_state>.choice(<pool>)` in %s (found %d)' % (PROPOSER, len(ch)))
+    else:
+        c = ch[0]
+        pool = c.args[0] if c.args else kwarg(c, 'a')
+        okr = _seed_expr(fip, c.func.value, RS)
+        if not okr:
+            ck.bad(rule, mod, c, PROPOSER, u(c), 'the serial draw must use the generator handed in as `%s`' % RS)
+        elif pool is None:
+            ck.missing(rule, 'pool argument of `%s`' % u(c))
+        else:
+            v = classify(fip.expand(pool, stop=(SI,)), [SI], scope={SI, X})
+            extra = [k.arg for k in c.keywords if k.arg not in ('a',)] or c.args[1:]
+            if v[0] == 'match' and extra:
+                v = ('far', 0, None)
+            ck.decide(v, rule, mod, c, PROPOSER, u(c), 'serial proposal = random_state.choice(state_inds)',
+                      'serial proposal must be random_state.choice(%s): one member frame of the cluster' % SI)
+    # --- MPI draw
+    ri = [c for c in calls_in(fnp) if _last(call_name(c)) == 'randind']
+    Rn = IDX = None
+    if len(ri) != 1:
+        ck.missing(rule, 'exactly one randind(...) call in %s (found %d)' % (PROPOSER, len(ri)))
+    else:
+        c = ri[0]
+        pool = c.args[0] if c.args else kwarg(c, 'local_array')
+        rs = c.args[1] if len(c.args) > 1 else kwarg(c, 'random_state')
+        if pool is None:
+            ck.missing(rule, 'pool argument of `%s`' % u(c))
+        else:
+            v = classify(fip.expand(pool, stop=(SI,)), [SI], scope={SI, X})
+            if v[0] == 'match' and not (rs is not None and _seed_expr(fip, rs, RS)):
+                ck.bad(rule, mod, c, PROPOSER, u(c), 'MPI proposal must be mpi.ops.randind(%s, %s): the generator is not forwarded' % (SI, RS))
+            else:
+                ck.decide(v, rule, mod, c, PROPOSER, u(c), 'MPI proposal = randind(state_inds, random_state)',
+                          'MPI proposal must be mpi.ops.randind(%s, %s)' % (SI, RS))
+        st = fip.stmt(c)
+        if isinstance(st, ast.Assign) and st.value is c and len(st.targets) == 1 and isinstance(st.targets[0], ast.Tuple) \
+                and len(st.targets[0].elts) == 2 and all(isinstance(e, ast.Name) for e in st.targets[0].elts):
+            Rn, IDX = [e.id for e in st.targets[0].elts]
+        else:
+            ck.missing(rule, '`<owner>, <position> = randind(...)`')
+    # --- the owner broadcasts the member FRAME INDEX state_inds[position]
+    WI = None
+    if Rn is not None:
+        def owner_test(test, pol):
+            cs = _conj(fip, test, pol)
+            if cs is None or len(cs) != 1 or not isinstance(cs[0], Cmp) or cs[0].op not in (ast.Eq, ast.NotEq):
+                return None
+            a, b = cs[0].lhs, cs[0].rhs
+            for x, y in ((a, b), (b, a)):
+                if isinstance(x, ast.Call) and _last(call_name(x)) in ('rank', 'Get_rank') and not x.args and fip.xu(y) == Rn:
+                    return cs[0].op is ast.Eq
+            return None
+        bc = [c for c in calls_in(fnp) if _last(call_name(c)) == 'bcast']
+        sends = []
+        for c in bc:
+            st = fip.stmt(c)
+            root = kwarg(c, 'root') if kwarg(c, 'root') is not None else (c.args[1] if len(c.args) > 1 else None)
+            if root is None or fip.xu(root) != Rn:
+                v = classify(fip.expand(root), [Rn], scope={Rn, IDX}) if root is not None else ('near', 1, Rn)
+                ck.decide(v, rule, mod, c, PROPOSER, u(c), '', 'the frame index must be broadcast from the owner rank `%s`' % Rn)
+                continue
+            if isinstance(st, ast.Assign) and st.value is c and len(st.targets) == 1 and isinstance(st.targets[0], ast.Name):
+                WI = st.targets[0].id if WI in (None, st.targets[0].id) else '?'
+            pol = None
+            for a in _controlling(fip, mod, st):
+                t = owner_test(a.test, a.polarity)
+                if t is not None:
+                    pol = t
+            if pol is False:
+                continue            # receiving side: the argument is ignored
+            e = c.args[0] if c.args else kwarg(c, 'obj')
+            if isinstance(e, ast.Name):
+                sv = _stable_value(fip, e)
+                e = sv if sv is not None else e
+            if e is None or (isinstance(e, ast.Constant) and e.value is None):
+                continue            # nothing to send: a receiving side whose guard was not recognised
+            if isinstance(e, ast.IfExp):
+                t = owner_test(e.test, True)
+                if t is None:
+                    ck.missing(rule, 'payload `%s` of the broadcast: condition not recognised' % u(e)[:100])
+                    continue
+                e = e.body if t else e.orelse
+            sends.append((c, e))
+        if not sends:
+            ck.missing(rule, 'broadcast of the drawn frame index from the owner rank in %s' % PROPOSER)
+        for c, e in sends:
+            v = classify(fip.expand(e, stop=(SI,)), ['%s[%s]' % (SI, IDX), 'int(%s[%s])' % (SI, IDX)], scope={SI, IDX, Rn})
+            ck.decide(v, rule, mod, c, PROPOSER, '%s  [owner sends %s]' % (u(c), u(e)),
+                      'owner broadcasts the member frame index state_inds[idx]',
+                      'the owner must broadcast %s[%s] (a member frame), not the position %s' % (SI, IDX, IDX))
+    # --- returned (coordinate, index): the coordinate is the frame of X at the returned index
+    rule = 'C09.D3.frame'
+    rets = returns_of(fnp)
+    if not rets or not all(isinstance(r.value, ast.Tuple) and len(r.value.elts) == 2 and all(isinstance(e, ast.Name) for e in r.value.elts) for r in rets):
+        ck.missing(rule, '`return <coordinate>, <index>` of %s' % PROPOSER)
+        return
+    n = 0
+    pairs = []
+    for r in rets:
+        Pn, In = r.value.elts
+        for d in fip.defs_of_use(Pn):
+            if not any(d is d0 and In.id == i0.id for d0, _, i0, _ in pairs):
+                pairs.append((d, Pn, In, fip.defs_of_use(In)))
+    for d, Pn, In, idefs in pairs:
+        if d in ('PARAM', 'UNBOUND') or not isinstance(d, ast.Assign):
+            ck.missing(rule, 'definition of the proposed coordinate `%s` in %s' % (Pn.id, PROPOSER))
+            continue
+        val = fip.def_value(d, Pn.id)
+        # the index definitions on the same path
+        ids = [i for i in idefs if i not in ('PARAM', 'UNBOUND') and (i is d or fip.cfg.reachable(i, d) or fip.cfg.reachable(d, i))]
+        if val is None or len(ids) != 1 or not isinstance(ids[0], ast.Assign):
+            ck.missing(rule, 'pairing of `%s` with the definition of the index `%s`' % (u(d)[:80], In.id))
+            continue
+        ival = fip.def_value(ids[0], In.id)
+        if isinstance(val, ast.Call) and _last(call_name(val)) == 'distribute_frame':
+            da = _distribute_args(ck, val)
+            if da is None or any(x is None for x in da) or not (isinstance(ival, ast.Tuple) and len(ival.elts) == 2):
+                ck.missing(rule, 'MPI proposal `%s` / `%s`' % (u(d)[:80], u(ids[0])[:60]))
+                continue
+            data, wi, ow = da
+            i0, i1 = fip.xu(ival.elts[0]), fip.xu(ival.elts[1])
+            ok = fip.xu(data, stop=(X,)) == X and fip.xu(ow) == i0 and fip.xu(wi) == i1 and (Rn is None or i0 == Rn) and (WI in (None, '?') or i1 == WI)
+            n += 1
+            ck.check(ok, rule, mod, d, PROPOSER, '%s; %s' % (u(d), u(ids[0])),
+                     'MPI proposal: coordinate = frame <world index> of X on <owner>, index = (owner, world index)',
+                     'the proposed coordinate must be distribute_frame(data=%s, owner_rank=r, world_index=i) for the '
+                     'returned index (r, i) with r the drawn owner and i the broadcast member frame' % X)
+        else:
+            ix = In.id
+            ok_i = isinstance(ival, ast.Call) and isinstance(ival.func, ast.Attribute) and ival.func.attr == 'choice'
+            v = classify(fip.expand(val, stop=(X, ix)), ['%s[%s]' % (X, ix)], scope={X, ix, SI})
+            if v[0] == 'match' and not (ok_i and fip.cfg.reachable(ids[0], d) and _no_redef_between(fip, ix, ids[0], d, None)):
+                v = ('far', 0, None)
+            n += 1
+            ck.decide(v, rule, mod, d, PROPOSER, '%s; %s' % (u(ids[0]), u(d)),
+                      'serial proposal: coordinate = X[drawn index]',
+                      'the proposed coordinate must be %s[%s], the frame at the drawn index' % (X, ix))
+    if n == 0:
+        ck.missing(rule, 'no definition of the proposed coordinate recognised in %s' % PROPOSER)
 
 
-def d4_hybrid(ck):
+def _pairing(ck, R, fnp):
+    """In the PAM update: the coordinate swapped into the candidate list and
+    the index committed come from the same proposal (same proposer call, or
+    proposals[cid] and the frame of X at that index)."""
+    rule = 'C09.D3.frame'
+    mod, fn, fi, loop = R.mod, R.fn, R.fi, R.loop
+    PI, P = getattr(R, 'PI', None), getattr(R, 'P', None)
+    if PI is None or P is None:
+        ck.missing(rule, 'proposal index / coordinate of the PAM update not located (see C09.D2.atomic.values)')
+        return
+    pi_defs, p_defs = fi.defs_of_use(PI), fi.defs_of_use(P)
+    commit = R.commit
+    from_props = 0
+    for d in p_defs:
+        if d in ('PARAM', 'UNBOUND') or not isinstance(d, ast.Assign) or not _inside(mod, d, loop):
+            ck.missing(rule, 'definition of the proposed coordinate `%s` inside the per-centre loop' % P.id)
+            continue
+        t = d.targets[0]
+        dv = d.value
+        if isinstance(dv, ast.Name) and isinstance(_stable_value(fi, dv), ast.Call):
+            dv = _stable_value(fi, dv)
+        if isinstance(dv, ast.Call) and _last(call_name(dv)) == PROPOSER:
+            if isinstance(t, ast.Tuple) and len(t.elts) == 2 and all(isinstance(e, ast.Name) for e in t.elts):
+                names = [e.id for e in t.elts]
+                if names == [P.id, PI.id] and d in pi_defs:
+                    ck.ok(rule, mod, d, u(d)[:160], 'index and coordinate come from the same draw')
+                elif names == [PI.id, P.id]:
+                    ck.bad(rule, mod, d, PAM, u(d)[:160], '%s returns (coordinate, index): unpacked in the wrong order' % PROPOSER)
+                else:
+                    ck.missing(rule, 'unpacking of the proposer result `%s`' % u(d)[:100])
+            else:
+                ck.missing(rule, 'unpacking of the proposer result `%s`' % u(d)[:100])
+            continue
+        val = fi.def_value(d, P.id)
+        if val is None:
+            ck.missing(rule, 'definition `%s` of the proposed coordinate' % u(d)[:100])
+            continue
+        ixs = [n for n in walk_expr(val) if isinstance(n, ast.Name) and n.id == PI.id]
+        tied = bool(ixs) and all(fi.defs_of_use(n) <= pi_defs for n in ixs) and _no_redef_between(fi, PI.id, d, commit, loop)
+        if isinstance(val, ast.Call) and _last(call_name(val)) == 'distribute_frame':
+            da = _distribute_args(ck, val)
+            if da is None or any(x is None for x in da) or not tied:
+                ck.missing(rule, 'explicit MPI proposal `%s`' % u(d)[:100])
+                continue
+            data, wi, ow = da
+            got = (fi.xu(data, stop=(R.X,)), fi.xu(ow, stop=(PI.id,)), fi.xu(wi, stop=(PI.id,)))
+            want = (R.X, '%s[0]' % PI.id, '%s[1]' % PI.id)
+            if got == want:
+                ck.ok(rule, mod, d, u(d)[:160], 'explicit MPI proposal: frame PI[1] of X on rank PI[0]')
+            elif got[0] == want[0] and set(got[1:]) <= {'%s[0]' % PI.id, '%s[1]' % PI.id, PI.id}:
+                ck.bad(rule, mod, d, PAM, u(d)[:160], 'an explicit proposal (rank, frame) must be fetched as '
+                       'distribute_frame(data=%s, owner_rank=%s[0], world_index=%s[1])' % (R.X, PI.id, PI.id))
+            else:
+                ck.missing(rule, 'explicit MPI proposal `%s`' % u(d)[:100])
+            continue
+        v = classify(fi.expand(val, stop=(R.X, PI.id)), ['%s[%s]' % (R.X, PI.id)], scope={R.X, PI.id, R.cid} | set(R.ps[5:]))
+        if v[0] == 'match' and not tied:
+            v = ('far', 0, None)
+        ck.decide(v, rule, mod, d, PAM, u(d)[:160], 'explicit proposal: coordinate = X[proposal index]',
+                  'the coordinate of an explicit proposal must be %s[%s], the frame named by the proposal' % (R.X, PI.id))
+    # the index: the proposer's, or proposals[cid]
+    for d in pi_defs:
+        if d in ('PARAM', 'UNBOUND') or not isinstance(d, ast.Assign):
+            ck.missing(rule, 'definition of the proposal index `%s`' % PI.id)
+            continue
+        dv = d.value
+        if isinstance(dv, ast.Name) and isinstance(_stable_value(fi, dv), ast.Call):
+            dv = _stable_value(fi, dv)
+        if isinstance(dv, ast.Call) and _last(call_name(dv)) == PROPOSER:
+            continue
+        val = fi.def_value(d, PI.id)
+        # the explicit proposals: "the parameter that is indexed to give the proposal index"
+        bm = match('_P[_K]', fi.expand(val, stop=tuple(R.ps))) if val is not None else None
+        P_ = bm['_P'].id if bm is not None and isinstance(bm['_P'], ast.Name) else None
+        if P_ is None or P_ not in R.ps[5:] or fi.rd.defs_at(d, P_) != {'PARAM'}:
+            ck.missing('C09.D5.seed.proposals', 'definition `%s` of the proposal index' % u(d)[:100])
+            continue
+        R.proposals = P_
+        v = classify(fi.expand(val, stop=(P_,)), ['%s[%s]' % (P_, R.cid)], scope={P_, R.cid})
+        if v[0] == 'match':
+            from_props += 1
+        ck.decide(v, 'C09.D5.seed.proposals', mod, d, PAM, u(d), 'supplied proposals are used positionally per centre',
+                  'the proposal for centre %s must be %s[%s]' % (R.cid, P_, R.cid))
+    if 'proposals' in R.ps and from_props == 0 and R.proposals is None:
+        used = any(isinstance(n, ast.Name) and n.id == 'proposals' for n in walk_local(loop))
+        if not used:
+            ck.bad('C09.D5.seed.proposals', mod, loop, PAM, 'per-centre loop', 'supplied proposals are never read')
+    # initial coordinates: the frames of X at the supplied indices
+    _initial_coords(ck, R)
+
+
+def _initial_coords(ck, R):
+    rule = 'C09.D3.frame'
+    mod, fn, fi, loop = R.mod, R.fn, R.fi, R.loop
+    ds = [d for d in fi.rd.defs_at(loop, R.MC) if not (d not in ('PARAM', 'UNBOUND') and _inside(mod, d, loop))]
+    n = 0
+    for d in ds:
+        if d in ('PARAM', 'UNBOUND') or not isinstance(d, ast.Assign):
+            ck.missing(rule, 'initial centre coordinates `%s`' % R.MC)
+            continue
+        val = fi.def_value(d, R.MC)
+        if isinstance(val, ast.List) and not val.elts or (isinstance(val, ast.Call) and u(val) == 'list()'):
+            # filled by append in a loop over the (rank, frame) pairs
+            apps = [c for c in calls_in(fn) if isinstance(c.func, ast.Attribute) and c.func.attr == 'append'
+                    and u(c.func.value) == R.MC and not _inside(mod, c, loop)]
+            if not apps:
+                ck.missing(rule, 'filling of the initial centre coordinates `%s`' % R.MC)
+            for c in apps:
+                l = _loop_of(mod, c)
+                e = c.args[0] if len(c.args) == 1 else None
+                if isinstance(e, ast.Name):
+                    sv = _stable_value(fi, e)
+                    e = sv if sv is not None else e
+                if not (isinstance(l, ast.For) and isinstance(e, ast.Call) and _last(call_name(e)) == 'distribute_frame'):
+                    ck.missing(rule, 'initial MPI centre coordinates `%s`' % u(c)[:100])
+                    continue
+                da = _distribute_args(ck, e)
+                it, tg = l.iter, l.target
+                if isinstance(it, ast.Call) and call_name(it) == 'enumerate' and len(it.args) == 1 and isinstance(tg, ast.Tuple) and len(tg.elts) == 2:
+                    it, tg = it.args[0], tg.elts[1]
+                if da is None or any(x is None for x in da) or fi.xu(it, stop=(R.MI,)) != R.MI or not (
+                        isinstance(tg, ast.Tuple) and len(tg.elts) == 2 and all(isinstance(x, ast.Name) for x in tg.elts)):
+                    ck.missing(rule, 'initial MPI centre coordinates `%s`' % u(l)[:100])
+                    continue
+                data, wi, ow = da
+                rk, fr = [x.id for x in tg.elts]
+                got = (fi.xu(data, stop=(R.X,)), fi.xu(ow), fi.xu(wi))
+                n += 1
+                if got == (R.X, rk, fr):
+                    ck.ok(rule, mod, c, u(e)[:160], 'initial MPI coordinates: frame <frame> of X on <rank> for each (rank, frame) in the indices')
+                elif got[0] == R.X and set(got[1:]) == {rk, fr}:
+                    ck.bad(rule, mod, c, PAM, u(e)[:160], 'for a centre index (rank, frame) the coordinate must be '
+                           'distribute_frame(data=%s, owner_rank=%s, world_index=%s)' % (R.X, rk, fr))
+                else:
+                    ck.missing(rule, 'initial MPI centre coordinates `%s`' % u(e)[:100])
+            continue
+        if val is None:
+            ck.missing(rule, 'initial centre coordinates `%s`' % u(d)[:100])
+            continue
+        n += 1
+        v = classify(fi.expand(val, stop=(R.X, R.MI)), ['[%s[_I] for _I in %s]' % (R.X, R.MI), 'list(%s[%s])' % (R.X, R.MI),
+                                                        '[%s[int(_I)] for _I in %s]' % (R.X, R.MI)], scope={R.X, R.MI})
+        ck.decide(v, rule, mod, d, PAM, u(d)[:160], 'initial coordinates = the frames of X at the supplied centre indices',
+                  'the centre coordinates must start as [%s[i] for i in %s]' % (R.X, R.MI))
+    if n == 0:
+        ck.missing(rule, 'no initialisation of the centre coordinates `%s` recognised' % R.MC)
+
+
+# ---------------------------------------------------------------------------
+# D2 (cont.): the outputs of one sweep are the inputs of the next
+
+def d2_wiring(ck, R):
+    rule = 'C09.D2.atomic.wiring'
+    if R is None:
+        return
+    mod = R.mod
+    fn = mod.func(SWEEPS)
+    fi = finfo(mod, fn)
+    ck.analysed(mod, fn)
+    calls = [c for c in calls_in(fn) if _last(call_name(c)) == PAM]
+    if len(calls) != 1:
+        ck.missing(rule, 'exactly one call of %s in %s' % (PAM, SWEEPS))
+        return
+    c = calls[0]
+    b = _bind(c, R.fn, mod)
+    st = fi.stmt(c)
+    tgt = None
+    if isinstance(st, ast.Assign) and st.value is c and len(st.targets) == 1:
+        t = st.targets[0]
+        if isinstance(t, ast.Name):
+            for s2 in walk_local(fn):
+                if isinstance(s2, ast.Assign) and isinstance(s2.value, ast.Name) and s2.value.id == t.id \
+                        and fi.defs_of_use(s2.value) == {st} and len(s2.targets) == 1 and isinstance(s2.targets[0], ast.Tuple):
+                    t, st = s2.targets[0], s2
+                    break
+        if isinstance(t, ast.Tuple) and len(t.elts) == 4 and all(isinstance(e, ast.Name) for e in t.elts):
+            tgt = [e.id for e in t.elts]
+    if b is None or tgt is None:
+        ck.missing(rule, '`<indices>, <distances>, <assignments>, <centers> = %s(...)` in %s' % (PAM, SWEEPS))
+        return
+    for k, p, what in ((0, R.pMI, 'centre indices'), (1, R.pD, 'distances'), (2, R.pA, 'assignments')):
+        a = b.get(p)
+        if a is None:
+            ck.missing(rule, 'argument `%s` of the sweep call' % p)
+            continue
+        ax = fi.xu(a)
+        if ax == tgt[k]:
+            ck.ok(rule, mod, c, '%s=%s <- output %d' % (p, ax, k), 'the %s returned by one sweep start the next' % what)
+        elif ax in tgt:
+            ck.bad(rule, mod, c, SWEEPS, '%s=%s; %s' % (p, ax, u(st)[:120]),
+                   'the %s returned by a sweep (output %d, `%s`) must be handed to the next sweep as `%s`; found `%s`, '
+                   'another output of the sweep: labels, distances and centres go out of step' % (what, k, tgt[k], p, ax))
+        else:
+            ck.missing(rule, 'argument `%s=%s` of the sweep call is not an output of the previous sweep' % (p, ax))
+    res = [x for x in calls_in(fn) if _last(call_name(x)) == 'ClusterResult' and _inside(mod, x, _loop_of(mod, c) or fn)]
+    fields = {'center_indices': 0, 'distances': 1, 'assignments': 2, 'centers': 3}
+    for x in res:
+        if x.args:
+            ck.missing(rule, 'positional ClusterResult(...) in %s' % SWEEPS)
+            continue
+        for kw in x.keywords:
+            if kw.arg not in fields:
+                continue
+            ax = fi.xu(kw.value)
+            k = fields[kw.arg]
+            if ax == tgt[k]:
+                ck.ok(rule, mod, x, '%s=%s' % (kw.arg, ax), 'result field takes the matching sweep output')
+            elif ax in tgt:
+                ck.bad(rule, mod, x, SWEEPS, '%s=%s' % (kw.arg, ax), 'result field `%s` must take sweep output `%s`' % (kw.arg, tgt[k]))
+            else:
+                ck.missing(rule, 'result field `%s=%s`' % (kw.arg, ax))
+    if not res:
+        ck.missing(rule, 'ClusterResult(...) built from the sweep outputs')
+
+
+# ---------------------------------------------------------------------------
+# D4 hybrid handover
+
+def d4_hybrid(ck, seed=None):
     rule = 'C09.D4.handover'
     mod = ck.repo.mod(HY)
     fn = mod.func('hybrid')
     fi = finfo(mod, fn)
     ck.analysed(mod, fn)
-    calls = [c for c in calls_in(fn) if (call_name(c) or '').endswith('_kmedoids_iterations')]
+    calls = [c for c in calls_in(fn) if _last(call_name(c)) == SWEEPS]
     if len(calls) != 1:
-        ck.missing(rule, '_kmedoids_iterations call in hybrid')
+        ck.missing(rule, '%s call in hybrid' % SWEEPS)
         return
     c = calls[0]
     modk = ck.repo.mod(KM)
-    ps = params(modk.func('_kmedoids_iterations'))
-    bind = {}
-    for i, a in enumerate(c.args):
-        bind[ps[i]] = a
-    for k in c.keywords:
-        bind[k.arg] = k.value
-    want = {'cluster_center_inds': 'center_indices', 'assignments': 'assignments',
-            'distances': 'distances'}
-    kc = [x for x in calls_in(fn) if (call_name(x) or '').endswith('kcenters.kcenters')]
+    callee = modk.func(SWEEPS)
+    ps = params(callee)
+    bind = _bind(c, callee, modk)
+    if bind is None or len(ps) < 6:
+        ck.missing(rule, 'arguments of `%s`' % u(c)[:100])
+        return
+    pX, pDM, pN, pCI, pA, pD = ps[:6]
+    want = {pCI: 'center_indices', pA: 'assignments', pD: 'distances'}
+    kc = [x for x in calls_in(fn) if (call_name(x) or '').endswith('kcenters.kcenters') or call_name(x) == 'kcenters']
     if len(kc) != 1:
         ck.missing(rule, 'kcenters.kcenters call in hybrid')
         return
     res_assign = fi.stmt(kc[0])
-    resname = res_assign.targets[0].id if isinstance(res_assign, ast.Assign) and isinstance(res_assign.targets[0], ast.Name) else None
+    tgt0 = res_assign.targets[0] if isinstance(res_assign, ast.Assign) and res_assign.value is kc[0] and len(res_assign.targets) == 1 else None
+    # field order of the ClusterResult named tuple (for positional access / direct unpacking)
+    order = []
+    try:
+        cls = ck.repo.mod(CU).classes.get('ClusterResult')
+        for bse in (cls.bases if cls is not None else []):
+            if isinstance(bse, ast.Call) and _last(call_name(bse)) == 'namedtuple' and len(bse.args) == 2 and isinstance(bse.args[1], (ast.List, ast.Tuple)):
+                order = [const_value(e) for e in bse.args[1].elts]
+    except AnalysisIncomplete:
+        pass
+    resname, unpacked = None, {}
+    if isinstance(tgt0, ast.Name):
+        resname = tgt0.id
+    elif isinstance(tgt0, ast.Tuple) and len(tgt0.elts) == len(order) and all(isinstance(e, ast.Name) for e in tgt0.elts):
+        unpacked = {e.id: f for e, f in zip(tgt0.elts, order)}
+    else:
+        ck.missing(rule, '`<result> = kcenters.kcenters(...)` in hybrid')
+        return
+    stc = fi.stmt(c)
+
+    def field_of(ex, orig):
+        """Which field of the k-centers result the expression denotes (None: not a plain field)."""
+        if resname is not None and isinstance(ex, ast.Attribute) and isinstance(ex.value, ast.Name) and ex.value.id == resname:
+            return ex.attr
+        if resname is not None and isinstance(ex, ast.Subscript) and isinstance(ex.value, ast.Name) and ex.value.id == resname:
+            k = const_value(ex.slice)
+            if isinstance(k, int) and not isinstance(k, bool) and -len(order) <= k < len(order):
+                return order[k]
+        if isinstance(ex, ast.Name) and ex.id in unpacked and isinstance(orig, ast.Name) and fi.defs_of_use(orig) == {res_assign}:
+            return unpacked[ex.id]
+        return None
+
     for p, field in want.items():
         a = bind.get(p)
-        v = a
-        if isinstance(a, ast.Name):
-            defs = fi.defs_of_use(a)
-            ok_single = len(defs) == 1
-            site = next(iter(defs)) if ok_single else None
-            v = fi.def_value(site, a.id) if site is not None and site not in ('PARAM', 'UNBOUND') else None
-        ok = v is not None and u(v) == '%s.%s' % (resname, field)
-        ck.check(ok, rule, mod, c, 'hybrid', '%s=%s (= %s)' % (p, u(a), u(v) if v is not None else '?'),
-                 'k-medoids starts from the k-centers %s unchanged' % field,
-                 'the `%s` handed to the sweeps must be the k-centers result field `%s` '
-                 'with no intervening redefinition' % (p, field))
-    ok = u(bind.get('X')) == params(fn)[0] and u(bind.get('distance_method')) == 'distance_method' \
-        and u(bind.get('n_iters')) == 'n_iters'
+        if a is None:
+            ck.missing(rule, 'argument `%s` of the sweeps' % p)
+            continue
+        ex = fi.expand(a)
+        n = _orig_name(fi, a)
+        construct = '%s=%s (= %s)' % (p, u(a), u(canon(ex)))
+        why = ('the `%s` handed to the sweeps must be the k-centers result field `%s` '
+               'with no intervening redefinition' % (p, field))
+        got = field_of(ex, n)
+        if got is None and isinstance(ex, ast.Name) and isinstance(n, ast.Name):
+            # not expandable: stored into between the k-centers stage and the hand-over?
+            stores = [s for s in fi._mutated_in_place(n.id) if fi.cfg.reachable(s, stc) or s is stc]
+            sv = _stable_value(fi, n)
+            if stores and sv is not None and field_of(fi.expand(sv), None) == field:
+                ck.bad(rule, mod, stores[0], 'hybrid', construct,
+                       why + ': `%s` stores into it before the hand-over' % u(stores[0])[:80])
+                continue
+        if got is None and resname is not None and isinstance(n, ast.Name) and n.id == resname and fi.defs_of_use(n) == {res_assign}:
+            got = '<the whole result>'
+        v = ('match', {}) if got == field else ('near', 1, field) if got is not None else ('far', 0, None)
+        ck.decide(v, rule, mod, c, 'hybrid', construct, 'k-medoids starts from the k-centers %s unchanged' % field, why)
+    # the result object itself is not changed in between
+    for nm_ in ([resname] if resname is not None else list(unpacked)):
+        for s in fi._mutated_in_place(nm_):
+            if fi.cfg.reachable(res_assign, s) and fi.cfg.reachable(s, stc):
+                ck.bad(rule, mod, s, 'hybrid', u(s)[:120], 'the k-centers result is modified before it is handed to the sweeps')
+    X, DM = params(fn)[0], params(fn)[1]
+    ok = True
+    for p, own in ((pX, X), (pDM, DM), (pN, pN)):
+        a = bind.get(p)
+        if a is None or fi.xu(a, stop=(own,)) != own:
+            ok = False
+    a0 = kc[0].args
+    same_metric = len(a0) >= 2 and isinstance(bind.get(pDM), ast.Name) and isinstance(a0[1], ast.Name) and fi.same_value(a0[1], bind[pDM])
     ck.check(ok, rule, mod, c, 'hybrid', u(c)[:160], 'same data, metric and sweep count',
              'data/metric/n_iters handed to the sweeps differ from hybrid\'s own')
-    rs = bind.get('random_state')
-    ck.check(rs is not None and u(rs) == 'random_state', 'C09.D5.seed', mod, c, 'hybrid', u(c)[:160],
+    sp = (seed or {}).get(SWEEPS) or 'random_state'
+    rs = bind.get(sp)
+    ck.check(rs is not None and _param_root(fi, rs) is not None, 'C09.D5.seed', mod, c, 'hybrid', u(c)[:160],
              'random_state forwarded to the sweeps', 'random_state is dropped between hybrid and the sweeps')
     # same metric is used for both stages
-    a = kc[0].args
-    ck.check(len(a) >= 2 and u(a[0]) == params(fn)[0] and u(a[1]) == 'distance_method',
+    ck.check(len(a0) >= 2 and fi.xu(a0[0], stop=(X,)) == X and fi.xu(a0[1], stop=(DM,)) == DM and same_metric,
              rule, mod, kc[0], 'hybrid', u(kc[0])[:160], 'k-centers stage uses the same data and metric',
-             'k-centers stage must run on (X, distance_method)')
-    # n_iters == 0 path returns the k-centers state
-    guard_ok = False
-    for n in walk_local(fn):
-        if isinstance(n, ast.If) and 'n_iters' in names_loaded(n.test):
-            guard_ok = True
-    ck.check(guard_ok, 'C09.D6.zero-sweeps', mod, fn, 'hybrid', 'if n_iters > 0',
-             'hybrid guards the zero-sweep case', 'hybrid calls the sweeps with n_iters == 0')
+             'k-centers stage must run on (X, distance_method), the same metric object as the sweeps')
+    # n_iters == 0 path: the sweeps are only entered with n_iters > 0
+    N = fi.xu(bind[pN]) if bind.get(pN) is not None else pN
+    positive, mention, weak = False, False, None
+    for a in _controlling(fi, mod, stc):
+        cs = _conj(fi, a.test, a.polarity)
+        if N in names_loaded(a.test):
+            mention = True
+        for cc in (cs or []):
+            if isinstance(cc, Cmp) and cc.as_less() is not None:
+                small, strict, big = cc.as_less()
+                k = const_value(small)
+                if fi.xu(big) == N and isinstance(k, (int, float)) and not isinstance(k, bool):
+                    if k >= 0 if strict else k >= 1:
+                        positive = True
+                    else:
+                        weak = (a, cc)
+    if positive:
+        ck.ok('C09.D6.zero-sweeps', mod, stc, 'sweeps entered only if %s > 0' % N, 'hybrid guards the zero-sweep case')
+    elif weak is not None:
+        ck.bad('C09.D6.zero-sweeps', mod, weak[0].owner, 'hybrid', str(weak[1]),
+               'the guard `%s` still admits %s == 0: hybrid calls the sweeps with n_iters == 0' % (weak[1], N))
+    elif mention:
+        ck.missing('C09.D6.zero-sweeps', 'guard on `%s` before the sweeps not recognised as `%s > 0`' % (N, N))
+    else:
+        ck.bad('C09.D6.zero-sweeps', mod, fn, 'hybrid', 'if n_iters > 0', 'hybrid calls the sweeps with n_iters == 0')
 
 
-def d5_seed(ck):
+# ---------------------------------------------------------------------------
+# D5 seed / proposals flow
+
+def d5_seed(ck, R):
+    """The seed and the explicit proposals are threaded by ROLE: the parameter
+    of a callee that carries the seed is the one that (transitively) reaches
+    the proposer's generator; each caller must pass one of its own parameters
+    (possibly through check_random_state) to it."""
     rule = 'C09.D5.seed'
     mod = ck.repo.mod(KM)
-    # kmedoids -> _kmedoids_iterations -> _kmedoids_pam_update
-    chain = [('kmedoids', '_kmedoids_iterations'), ('_kmedoids_iterations', '_kmedoids_pam_update')]
-    for caller, callee in chain:
+    seeds = {PAM: R.seed if R is not None else None}
+    props = {PAM: R.proposals if R is not None else None}
+    if seeds[PAM] is None and 'random_state' in params(mod.func(PAM)):
+        seeds[PAM] = 'random_state'
+    if props[PAM] is None and 'proposals' in params(mod.func(PAM)):
+        props[PAM] = 'proposals'
+    # _kmedoids_iterations -> _kmedoids_pam_update, then kmedoids -> _kmedoids_iterations
+    for caller, callee in [(SWEEPS, PAM), ('kmedoids', SWEEPS)]:
         fn = mod.func(caller)
+        cfn = mod.func(callee)
+        fi = finfo(mod, fn)
         ck.analysed(mod, fn)
-        cs = [c for c in calls_in(fn) if (call_name(c) or '').split('.')[-1] == callee]
+        cs = [c for c in calls_in(fn) if _last(call_name(c)) == callee]
         if not cs:
             ck.missing(rule, 'call %s -> %s' % (caller, callee))
             continue
         for c in cs:
-            rs = kwarg(c, 'random_state')
-            ck.check(rs is not None and u(rs) == 'random_state', rule, mod, c, caller, u(c)[:140],
-                     'random_state forwarded %s -> %s' % (caller, callee),
-                     'random_state is not forwarded from %s to %s: seeded runs are not reproducible' % (caller, callee))
-            pr = kwarg(c, 'proposals')
-            if 'proposals' in params(fn):
-                ck.check(pr is not None and u(pr) == 'proposals', rule + '.proposals', mod, c, caller, u(c)[:140],
+            b = _bind(c, cfn, mod)
+            if b is None:
+                ck.missing(rule, 'arguments of `%s`' % u(c)[:100])
+                continue
+            sp = seeds.get(callee)
+            if sp is None:
+                ck.missing(rule, 'seed parameter of %s unknown' % callee)
+            else:
+                rs = b.get(sp)
+                root = _param_root(fi, rs) if rs is not None else None
+                ck.check(root is not None, rule, mod, c, caller, u(c)[:140],
+                         'random_state forwarded %s -> %s' % (caller, callee),
+                         'random_state is not forwarded from %s to %s: seeded runs are not reproducible' % (caller, callee))
+                if root is not None:
+                    seeds[caller] = root
+            pp = props.get(callee)
+            if pp is not None:
+                pr = b.get(pp)
+                root = _param_root(fi, pr, through=()) if pr is not None else None
+                ck.check(root is not None, rule + '.proposals', mod, c, caller, u(c)[:140],
                          'explicit proposals forwarded', 'explicit proposals are dropped on the way to the update')
+                if root is not None:
+                    props[caller] = root
+    for public in ('kmedoids',):
+        if seeds.get(public) not in (None, 'random_state'):
+            ck.missing(rule, '%s: the seed arrives through parameter `%s`, not `random_state`' % (public, seeds[public]))
     # no module-level RNG use in enspara/cluster
-    n = 0
     for rel in (KC, KM, HY, CU):
         m = ck.repo.mod(rel)
         for q, fn in m.functions.items():
             for c in calls_in(fn):
                 cn = call_name(c) or ''
-                if cn.startswith('np.random.') and cn not in ('np.random.default_rng', 'np.random.RandomState', 'np.random.seed'):
-                    n += 1
+                if cn.startswith('numpy.random.'):
+                    cn = 'np.' + cn[len('numpy.'):]
+                if cn.startswith('np.random.') and cn not in ('np.random.default_rng', 'np.random.RandomState', 'np.random.seed',
+                                                              'np.random.Generator'):
                     ck.bad(rule + '.global-rng', m, c, q, u(c)[:120],
                            'module-level numpy RNG bypasses the random_state argument')
                 if cn in ('np.random.default_rng',):
                     seed = kwarg(c, 'seed') or (c.args[0] if c.args else None)
-                    ck.check(seed is not None and u(seed) == 'random_state', rule + '.global-rng', m, c, q, u(c),
+                    ck.check(seed is not None and _param_root(finfo(m, fn), seed) is not None,
+                             rule + '.global-rng', m, c, q, u(c),
                              'generator seeded from random_state', 'default_rng is not seeded from random_state')
-    # proposals used when supplied
-    mod2, fn2, fi2 = _pam(ck)
-    st = [s for s in assigns_to(fn2, 'proposed_center_ind') if isinstance(s, ast.Assign) and isinstance(s.targets[0], ast.Name)]
-    ok = any(u(s.value).startswith('proposals[') for s in st)
-    ck.check(ok, rule + '.proposals', mod2, st[0] if st else fn2, '_kmedoids_pam_update',
-             '; '.join(u(s) for s in st), 'supplied proposals are used positionally per centre',
-             'supplied proposals are never read')
+    return seeds
+
+
+# ---------------------------------------------------------------------------
+# D6 definite assignment
+
+def _only_zero_trip(fi, mod, s, name):
+    """Three-valued: `name` is possibly unbound at `s`, but all its definitions
+    lie in ONE loop L that `s` follows, and once a trip of L has started the
+    name is bound before L can be left - so it is unbound only if L runs zero
+    times.
+      ('ok', why)   L iterates over a container M (M / enumerate(M) /
+                    range(len(M))) and M[0] is read on every path before L;
+      ('bad',)      L iterates over a parameter / range(<parameter>) and nothing
+                    excludes the empty case: zero trips are admissible;
+      ('unknown', why)  the trip count of L is not modelled;
+      None          not this structure at all (ordinary possibly-unbound read)."""
+    defs = [d for d in fi.cfg.nodes if d not in (ENTRY, EXIT) and not isinstance(d, Assume) and name in stmt_defs(d)]
+    loops = {_loop_of(mod, d) for d in defs}
+    if len(loops) != 1 or None in loops:
+        return None
+    L = next(iter(loops))
+    if _inside(mod, s, L) or not L.body or L.orelse:
+        return None
+    # once a trip has started the name is bound before the loop can be left
+    first = L.body[0]
+    if first not in defs and fi.cfg.path(first, s, avoiding=defs) is not None:
+        return None
+    if not isinstance(L, ast.For):
+        return ('unknown', 'trip count of `while %s` is not modelled' % u(L.test)[:60])
+    it = fi.expand(L.iter, strict=False)
+    b = None
+    for pat in ('range(len(_M))', 'range(0, len(_M))', 'enumerate(_M)', 'enumerate(list(_M))', 'list(_M)', '_M', 'range(_M.shape[0])'):
+        b = match(pat, it)
+        if b is not None and isinstance(b['_M'], ast.Name):
+            break
+        b = None
+    if b is None:
+        bp = match('range(_N)', it)
+        if bp is not None and isinstance(bp['_N'], ast.Name) and fi.rd.defs_at(L, bp['_N'].id) == {'PARAM'}:
+            return ('bad',)
+        return ('unknown', 'trip count of `for ... in %s` is not modelled' % u(L.iter)[:60])
+    M = b['_M'].id
+    for d in fi.cfg.nodes:
+        if d in (ENTRY, EXIT) or isinstance(d, Assume) or not fi.cfg.dominates(d, L) or d is L:
+            continue
+        if fi.rd.defs_at(d, M) != fi.rd.defs_at(L, M):
+            continue
+        for n in header_uses(d):
+            par = mod.parent.get(n)
+            if n.id == M and isinstance(par, ast.Subscript) and par.value is n and isinstance(par.ctx, ast.Load) \
+                    and const_value(par.slice) == 0 and not isinstance(const_value(par.slice), bool):
+                return ('ok', 'loop over %s cannot be zero-trip: %s[0] is read on every path before it' % (u(L.iter), M))
+    if fi.rd.defs_at(L, M) == {'PARAM'}:
+        return ('bad',)
+    return ('unknown', 'nothing shows that `%s` is non-empty before `for ... in %s`' % (M, u(L.iter)[:60]))
 
 
 def d6_definite(ck):
     rule = 'C09.D6.definite-assignment'
     mod = ck.repo.mod(KM)
-    for q in ('_kmedoids_iterations', '_kmedoids_pam_update', 'kmedoids', '_kmedoids_inputs_tree'):
+    for q in (SWEEPS, PAM, 'kmedoids', INPUTS):
         fn = mod.func(q)
         fi = finfo(mod, fn)
         ck.analysed(mod, fn)
@@ -373,11 +1435,12 @@ def d6_definite(ck):
                     continue
                 n += 1
                 if fi.rd.possibly_unbound(s, nm.id):
-                    if q == '_kmedoids_pam_update' and nm.id in ('old_cost', 'new_cost'):
-                        # read after the per-centre loop; the loop has at least one
-                        # trip because medoid_inds[0] is subscripted before it
-                        ck.ok(rule, mod, s, 'read of %s' % nm.id,
-                              'loop over range(len(medoid_inds)) cannot be zero-trip: medoid_inds[0] is read on every path before it')
+                    z = _only_zero_trip(fi, mod, s, nm.id)
+                    if z is not None and z[0] == 'ok':
+                        ck.ok(rule, mod, s, 'read of %s' % nm.id, z[1])
+                        continue
+                    if z is not None and z[0] == 'unknown' and q == PAM:
+                        ck.missing(rule, '%s: `%s` (read in `%s`) is bound only inside a loop; %s' % (q, nm.id, u(s)[:60], z[1]))
                         continue
                     defs = [d for d in fi.cfg.nodes if d not in (ENTRY, EXIT)
                             and not isinstance(d, Assume) and nm.id in stmt_defs(d)]
@@ -389,22 +1452,171 @@ def d6_definite(ck):
         ck.ok(rule, mod, fn, '%s: %d local reads' % (q, n), 'checked')
 
 
+# ---------------------------------------------------------------------------
+# D7 the supplied start state is private
+
 def d7_state_private(ck):
     """The supplied start state (centre indices, labels, distances) is not
     written: a rejected proposal leaves no trace and a second run from the
     same state sees the same state (reproducibility with a fixed seed)."""
     from ..patterns import check_no_arg_mutation
     check_no_arg_mutation(ck, 'C09.D7.start-state-unmodified', [
-        (KM, 'kmedoids'), (KM, '_kmedoids_iterations'),
-        (KM, '_kmedoids_pam_update'), (KM, 'KMedoids.fit'), (HY, 'hybrid')])
+        (KM, 'kmedoids'), (KM, SWEEPS),
+        (KM, PAM), (KM, 'KMedoids.fit'), (HY, 'hybrid')])
+
+
+# ---------------------------------------------------------------------------
+# D8 warm/cold start normalisation
+
+def _offset_forms(L, T):
+    """Accepted spellings of "first frame of trajectory T in the concatenated
+    data" = sum of the lengths of the trajectories before T."""
+    cs = 'np.cumsum(%s)' % L
+    out = ['sum(%s[:%s])' % (L, T), '%s[:%s].sum()' % (L, T), 'sum(%s[0:%s])' % (L, T), '%s[0:%s].sum()' % (L, T),
+           'int(%s[:%s].sum())' % (L, T), 'int(sum(%s[:%s]))' % (L, T), 'np.asarray(%s)[:%s].sum()' % (L, T),
+           'sum(list(%s)[:%s])' % (L, T), 'sum(%s[_J] for _J in range(%s))' % (L, T), 'sum([%s[_J] for _J in range(%s)])' % (L, T),
+           '%s[%s] - %s[%s]' % (cs, T, L, T), '(%s - %s)[%s]' % (cs, L, T), '(%s - np.asarray(%s))[%s]' % (cs, L, T)]
+    starts = []
+    for tail in ('%s[:-1]' % L, L):
+        for tl in ('list(%s)' % tail, tail):
+            starts += ['np.cumsum([0] + %s)' % tl]
+        starts += ['np.concatenate(([0], np.cumsum(%s)))' % tail, 'np.concatenate([[0], np.cumsum(%s)])' % tail,
+                   'np.insert(np.cumsum(%s), 0, 0)' % tail, 'np.r_[0, np.cumsum(%s)]' % tail,
+                   'np.hstack(([0], np.cumsum(%s)))' % tail, 'np.hstack([[0], np.cumsum(%s)])' % tail,
+                   'np.append(0, np.cumsum(%s))' % tail, 'np.append([0], np.cumsum(%s))' % tail]
+    starts += ['np.concatenate(([0], %s[:-1]))' % cs, 'np.concatenate([[0], %s[:-1]])' % cs, 'np.insert(%s, 0, 0)[:-1]' % cs,
+               'np.r_[0, %s[:-1]]' % cs, 'np.hstack(([0], %s[:-1]))' % cs, 'np.append(0, %s[:-1])' % cs, 'np.append([0], %s[:-1])' % cs]
+    out += ['%s[%s]' % (s, T) for s in starts]
+    return out
+
+
+def d8_warm_start(ck):
+    rule = 'C09.D8.warm-start'
+    mod = ck.repo.mod(KM)
+    fn = mod.func(INPUTS)
+    fi = finfo(mod, fn)
+    ck.analysed(mod, fn)
+    ps = params(fn)
+    if len(ps) < 7:
+        ck.missing(rule, 'parameters of %s' % INPUTS)
+        return
+    X, DM, NC, A, D, CCI, XL = ps[:7]
+    # --- (trajectory, frame) pairs -> index in the concatenated data
+    conv = []
+    for s in assigns_to(fn, CCI):
+        if isinstance(s, ast.Assign) and fi.def_value(s, CCI) is not None:
+            e = fi.expand(fi.def_value(s, CCI), stop=(CCI, XL))
+            if XL in names_loaded(e):
+                conv.append((s, e))
+    if not conv:
+        ck.missing(rule, 'conversion of centres given as (trajectory, frame) pairs through the trajectory lengths `%s`' % XL)
+    for s, e in conv:
+        e = canon(e)
+        T = F = None
+        elt = None
+        if isinstance(e, ast.ListComp) and len(e.generators) == 1 and not e.generators[0].ifs:
+            g = e.generators[0]
+            it = u(g.iter)
+            if it == CCI and isinstance(g.target, ast.Tuple) and len(g.target.elts) == 2 and all(isinstance(x, ast.Name) for x in g.target.elts):
+                T, F = [x.id for x in g.target.elts]
+                elt = e.elt
+            elif it == CCI and isinstance(g.target, ast.Name):
+                p = g.target.id
+                T, F = '_t_', '_f_'
+                elt = _subst(e.elt, {'%s[0]' % p: T, '%s[1]' % p: F})
+            elif isinstance(g.target, ast.Name) and it in ('range(len(%s))' % CCI, 'np.arange(len(%s))' % CCI, 'range(0, len(%s))' % CCI):
+                i = g.target.id
+                T, F = '_t_', '_f_'
+                elt = _subst(e.elt, {'%s[%s][0]' % (CCI, i): T, '%s[%s][1]' % (CCI, i): F,
+                                     '%s[%s, 0]' % (CCI, i): T, '%s[%s, 1]' % (CCI, i): F})
+        if elt is None:
+            ck.missing(rule, 'pair -> index conversion `%s` is not a comprehension over the supplied centres' % u(s)[:120])
+            continue
+        forms = []
+        for o in _offset_forms(XL, T):
+            forms += ['%s + %s' % (o, F), '%s + %s' % (F, o), 'int(%s + %s)' % (o, F), 'int(%s) + %s' % (o, F), 'int(%s) + int(%s)' % (o, F)]
+        v = classify(elt, forms, scope={XL, T, F})
+        ck.decide(v, rule, mod, s, INPUTS, u(canon(e))[:200],
+                  'centre (t, f) -> sum(lengths[:t]) + f, its index in the concatenated data',
+                  'a centre given as (trajectory t, frame f) must become sum(%s[:t]) + f (the frames of all EARLIER '
+                  'trajectories plus f): otherwise the sweeps start from other frames than the supplied centres' % XL)
+    # --- missing labels/distances are computed from the centre frames
+    an = [c for c in calls_in(fn) if _last(call_name(c)) == 'assign_to_nearest_center']
+    if len(an) != 1:
+        ck.missing(rule, 'exactly one assign_to_nearest_center(...) in %s (found %d)' % (INPUTS, len(an)))
+    else:
+        c = an[0]
+        try:
+            callee = ck.repo.mod(CU).func('assign_to_nearest_center')
+            b = _bind(c, callee, ck.repo.mod(CU))
+            cps = params(callee)[:3]
+        except AnalysisIncomplete:
+            b, cps = None, []
+        st = fi.stmt(c)
+        if b is None or len(cps) != 3 or any(p not in b for p in cps):
+            ck.missing(rule, 'arguments of `%s`' % u(c)[:100])
+        else:
+            tup = ast.Tuple(elts=[fi.expand(b[p], stop=(X, CCI, DM)) for p in cps], ctx=ast.Load())
+            v = classify(tup, ['(%s, %s[%s], %s)' % (X, X, CCI, DM), '(%s, %s[np.asarray(%s)], %s)' % (X, X, CCI, DM),
+                               '(%s, [%s[_I] for _I in %s], %s)' % (X, X, CCI, DM)], scope={X, CCI, DM})
+            ck.decide(v, rule, mod, c, INPUTS, u(c)[:160], 'cold labels/distances: every frame to its nearest supplied centre frame',
+                      'labels and distances must be computed against the frames %s[%s] of the data with the same metric' % (X, CCI))
+            if isinstance(st, ast.Assign) and st.value is c and len(st.targets) == 1 and isinstance(st.targets[0], ast.Tuple):
+                got = [u(x) for x in st.targets[0].elts]
+                if got == [A, D]:
+                    ck.ok(rule, mod, st, u(st.targets[0]), 'result unpacked as (assignments, distances)')
+                elif got == [D, A]:
+                    ck.bad(rule, mod, st, INPUTS, u(st)[:160], 'assign_to_nearest_center returns (assignments, distances): unpacked in the wrong order')
+                else:
+                    ck.missing(rule, 'unpacking `%s`' % u(st)[:100])
+    fc = [c for c in calls_in(fn) if _last(call_name(c)) == 'find_cluster_centers']
+    for c in fc:
+        tup = ast.Tuple(elts=[fi.expand(a, stop=(A, D)) for a in c.args] + [fi.expand(k.value, stop=(A, D)) for k in c.keywords], ctx=ast.Load())
+        if c.keywords and [k.arg for k in c.keywords] != ['assignments', 'distances'][len(c.args):]:
+            ck.missing(rule, 'arguments of `%s`' % u(c)[:100])
+            continue
+        v = classify(tup, ['(%s, %s)' % (A, D)], scope={A, D})
+        ck.decide(v, rule, mod, c, INPUTS, u(c), 'centres inferred from the supplied (assignments, distances)',
+                  'find_cluster_centers takes (assignments, distances) in this order')
+    # --- return order matches the unpacking in kmedoids()
+    rets = returns_of(fn)
+    if len(rets) == 1 and isinstance(rets[0].value, ast.Tuple):
+        got = [fi.xu(x, stop=(A, D, CCI)) for x in rets[0].value.elts]
+        if got == [A, D, CCI]:
+            ck.ok(rule, mod, rets[0], u(rets[0]), 'returns (assignments, distances, centre indices)')
+        elif sorted(got) == sorted([A, D, CCI]):
+            ck.bad(rule, mod, rets[0], INPUTS, u(rets[0]), 'must return (assignments, distances, centre indices): kmedoids() unpacks it positionally')
+        else:
+            ck.missing(rule, 'return value `%s`' % u(rets[0])[:100])
+    else:
+        ck.missing(rule, 'single tuple return of %s' % INPUTS)
+
+
+def _guarded(ck, rule, f, *args):
+    """An unforeseen shape inside one clause must not hide the findings of the
+    others: it is reported as analysis-incomplete for that clause."""
+    import os
+    try:
+        return f(*args)
+    except AnalysisIncomplete:
+        raise
+    except Exception as e:            # pragma: no cover
+        if os.environ.get('C09_DEBUG'):
+            raise
+        ck.missing(rule, 'construct not analysable (%s: %s)' % (type(e).__name__, str(e)[:120]))
+        return None
 
 
 def check(ck):
     d7_state_private(ck)
-    acc = d1_accept(ck)
-    d2_atomic(ck, acc)
-    d3_members(ck)
-    d4_hybrid(ck)
-    d5_seed(ck)
+    R = _guarded(ck, 'C09.D2.atomic', _roles, ck)
+    _guarded(ck, 'C09.D1.accept', d1_accept, ck, R)
+    _guarded(ck, 'C09.D1.cost', d1_cost, ck, R)
+    _guarded(ck, 'C09.D2.atomic', d2_atomic, ck, R)
+    _guarded(ck, 'C09.D2.atomic.wiring', d2_wiring, ck, R)
+    _guarded(ck, 'C09.D3.members', d3_members, ck, R)
+    seed = _guarded(ck, 'C09.D5.seed', d5_seed, ck, R)
+    _guarded(ck, 'C09.D4.handover', d4_hybrid, ck, seed)
     d6_definite(ck)
+    _guarded(ck, 'C09.D8.warm-start', d8_warm_start, ck)
     return EXPLANATION
